@@ -12,846 +12,301 @@ Definition show_fres (r : fres) : string :=
   end.
 Definition check (rs : list rune) : string := digest (show_fres (format_res rs)).
 Definition full (rs : list rune) : string := show_fres (format_res rs).
-Eval vm_compute in ("<<<M4322>>>" ++ check (runes_of_ascii "root packet charz {
-    repeat o Packet,
-}
-
-packet float {
-    match crc as body {
-        ""\" ++ [233]%N ++ runes_of_ascii """ : f32a,
-        4294967296 : len,
-        [""// no comment""] : lengthOf,
-        65535 : i64_,
-        //x
-        //
-        4294967296 : Pad,
-    },
-    Logon,
-    float64 body @lengthOf(leftPad) `say ""hi""`,
-    match u8x as repeatCount {
-        // @lengthOf(
-        """ ++ [128512]%N ++ runes_of_ascii """ : i8i8,
-        ""\n"" : tag,
-        7 : pack,
-        """ ++ [28040; 24687]%N ++ runes_of_ascii """ : calculatedFrom,
-        /// triple
-        [0, ""it's""] : int,
-    },
-    char[0] stringy,
-    repeat float32 trueish `u8 x,`,
-    char[] T,
-}
-
-packet calculatedFrom {
-    matchKey matchKey,
-    @leftPad()
-    msg_type,
-    int16 BodyLength `" ++ [233]%N ++ runes_of_ascii "`,
-    char[255] packetx,
-    @calculatedFrom(""x y"")
-    match Packet as uint8x {
-        ""\n"" : repeatCount,
-        [65535] : leftPad,
-        ""\n"" : trueish,
-        [""" ++ [233]%N ++ runes_of_ascii "t" ++ [233]%N ++ runes_of_ascii """, 1, ""abc"", 10] : f32a,
-        // " ++ [27880; 37322]%N ++ runes_of_ascii "
-        [""// no comment""] : u,
-        // @lengthOf(
-        65535 : matchKey,
-    },
-    match _x as float {
-        ""x y"" : len,
-    },
-    char a1 @lengthOf(i64_),
-    _x @calculatedFrom(""\n"") `// not a comment`,
-    repeat calculatedFrom {
-        zchar[1] Foo,
-        char[7] options1 `tab	here`,//
-        match chars as A {
-            4294967296 : string_,
-        },
-        u8x @calculatedFrom(""`tick`""),
-    },
-}
-
-packet calculatedFrom {
-    @lengthOf(tag)
-    @leftPad('\x00')
-    @rightPad('0')
-    char[0123456789] u128,
-    rootA {
-        zchar[4294967296] _x @lengthOf(metadata),
-    },
-    Header u,
-    @calculatedFrom(""it's"")
-    // @lengthOf(
-    // trailing space 
-    Pad @calculatedFrom(""abc""),
-    @lengthOf(u)
-    @lengthOf(len)
-    @rightPad()
-    // trailing space 
-    int64 uint8x `// not a comment`,
-}
-
-root packet roots {
-    u @lengthOf(i8i8),
-    @calculatedFrom(""\" ++ [233]%N ++ runes_of_ascii """)
-    BodyLength Logon,
-    uint16 body @lengthOf(f32a) `a\`,
-    int16 zchar,
-    @calculatedFrom(""a	b"")
-    u32 u128 `
-    `,
-    Pad T `
-    `,
-}")).
-Eval vm_compute in ("<<<M121>>>" ++ check (runes_of_ascii "packet body{ Z9_ {
-    string leftPad `crlf
-line` , msg_type { // c
-uint64 tag  `{ , }` ,repeat f64 BodyLength
-,} , i8i8 BodyLength , }
-    // " ++ [128512]%N ++ runes_of_ascii " emoji
-    , falsey //
-,@leftPad ( // c
-'0') @lengthOf(
-    falsey	)
-    f32 Z9_
-@lengthOf(  o )
-    , @calculatedFrom(
-""" ++ [233]%N ++ runes_of_ascii "t" ++ [233]%N ++ runes_of_ascii """ )
-repeat string //x
-As
-,@lengthOf(falsey) @calculatedFrom( ""a	b"")
-    @tag( 3
-) repeat Header{
-Packet@lengthOf(
-    crc )
-    , repeat int16
-As
-, repeat uint16 // packet A { u8 x, }
-f32a , } , @lengthOf(float )@tag(
-    3 )
-    // a // b
-    @tag(// " ++ [128512]%N ++ runes_of_ascii " emoji
-10 )	roots
-BodyLength , string tag //	t
-,
-} MetaData int {  char[ 1 ] As
-, Packet u128 , // c
-pack
-    x_y_z
-`{ , }` ,
-    string_
-len ,
-zchar[
-0
-] Header , string
-    zchar `
-`, } root packet uint8x { char[] u128
-, }root packet crc { repeat trueish { f32 lengthOf `say ""hi""` , i8 crc	@calculatedFrom( """ ++ [233]%N ++ runes_of_ascii "t" ++ [233]%N ++ runes_of_ascii """) , match Z9_ as repeatCount
-    {
-    [ 3 ] :  string_
-, ""it's""  : A 0 :	u8x 65535 : u128  } , // trailing space 
-i32 x , },char[]
-    pack `// not a comment` , char[]leftPad @calculatedFrom("""" ) `
-` ,
-string o `doc` ,}
-    packet// " ++ [27880; 37322]%N ++ runes_of_ascii "
-rootA  { // " ++ [128512]%N ++ runes_of_ascii " emoji
-repeat x_y_z{
-    zchar[
-//	t
-//	t
-3 ]
-    stringy
-`crlf
-line`,  BodyLength
-    BodyLength
-    `` , lengthOf
-@calculatedFrom(
-""x y""
-) , // c
-float64
-    // " ++ [27880; 37322]%N ++ runes_of_ascii "
-    Logon	@calculatedFrom(
-""a\\"" ) ,
-} , @lengthOf( Pad
-)// `tick` ""quote"" 'q'
-@calculatedFrom( ""abc"") @tag(4294967296 )uint8x @lengthOf( // packet A { u8 x, }
-crc )  ,
-@calculatedFrom( //	t
-""" ++ [233]%N ++ runes_of_ascii "t" ++ [233]%N ++ runes_of_ascii """  )
-string u
-@lengthOf(
-uint8x)
-    `// not a comment` ,u
-    metadata`u8 x,`
-,
-    }
-")).
-Eval vm_compute in ("<<<M103>>>" ++ check (runes_of_ascii "packet
-trueish {
-@calculatedFrom(	"""" ) u
-    @lengthOf( a1
-) ,
-} options //	t
-{
-    trueish =
-42 }
-options { //	t
-}packet Foo {match matchKey
-as body	{
-    // `tick` ""quote"" 'q'
-    [4294967296 ]	: Packet , 00 : A ,
-    } , @calculatedFrom( ""x y"" ) // " ++ [27880; 37322]%N ++ runes_of_ascii "
-@lengthOf(	a1)
-    repeat f64	rootA , } packet len{ @calculatedFrom( ""// no comment"") string T @lengthOf(
-f32a )
-    , float32 chars
-    , @rightPad ( ' ' ) repeat chars{ string A , string
-i64_ `line1
-line2`
-,
-float32
-    //
-    i8i8 ,uint64
-    /// triple
-    matchKey @calculatedFrom( ""abc"" )
-/// triple
-// `tick` ""quote"" 'q'
-`" ++ [233]%N ++ runes_of_ascii "` , } , A
-    `a\` ,
-@tag( 00
-)
-    @tag( 0123456789 )
-    @tag( 1	)
-u128 {i64_
-    {
-// c
-// trailing space 
-BodyLength , i64 u
-`{ , }` , match
-    Z9_
-    as
-chars /// triple
-{ ["""" ] : // `tick` ""quote"" 'q'
-float , [ 0123456789  , 42
-    , 3 ,
-    //	t
-    10  , 10 ]
-// a // b
-/// triple
-: stringy , ""1"" :trueish , // packet A { u8 x, }
-""packet"" : u128 [
-""x y"" ,7 ] : A
-} ,
-    int32	a1 ,} , rootA
-//x
-/// triple
-`doc` ,
-//x
-// `tick` ""quote"" 'q'
-} , @rightPad ( ' ' ) repeat options1  { int
-    @calculatedFrom( ""packet"" ) , // " ++ [128512]%N ++ runes_of_ascii " emoji
-} , repeat char[65535]
-    falsey
-    // packet A { u8 x, }
-    , @rightPad ( ) repeat char[] i8i8,
-repeat calculatedFrom  msg_type ,@rightPad (	) @tag(
-65535 ) repeat calculatedFrom crc , } 	 ")).
-Eval vm_compute in ("<<<M1404>>>" ++ check (runes_of_ascii "options {
-    StringPrefixLenType = u16;
-    ArrayPrefixLenType = u16;
-}
-
-packet SampleBinary {
-    uint16 MsgType `" ++ [28040; 24687; 31867; 22411]%N ++ runes_of_ascii "`,
-    u16 BodyLenght @lengthOf(Body) `" ++ [28040; 24687; 20307; 38271; 24230]%N ++ runes_of_ascii "`,
-    match MsgType as Body {
-        1 : Logon,
-        2 : Logout,
-        3 : Heartbeat,
-        4 : RiskControlRequest,
-        5 : RiskControlResponse,
-    },
-    @calculatedFrom(""CRC32"")
-    u32 Ckecksum `" ++ [26657; 39564; 21644]%N ++ runes_of_ascii "`,
-}
-
-packet Logon {
-    @leftPad('0')
-    char[10] UserName `" ++ [29992; 25143; 21517]%N ++ runes_of_ascii "`,
-    string Password `" ++ [23494; 30721]%N ++ runes_of_ascii "`,
-    uint64 ClientId `" ++ [23458; 25143; 31471]%N ++ runes_of_ascii "ID`,
-    u16 HeartbeatInterval `" ++ [24515; 36339; 38388; 38548]%N ++ runes_of_ascii "`,
-}
-
-packet Logout {
-    @rightPad('0')
-    char[10] UserName `" ++ [29992; 25143; 21517]%N ++ runes_of_ascii "`,
-    uint64 ClientId `" ++ [23458; 25143; 31471]%N ++ runes_of_ascii "ID`,
-}
-
-packet Heartbeat {
-}
-
-packet RiskControlRequest {
-    string UniqueOrderId `" ++ [21807; 19968; 35746; 21333; 21495]%N ++ runes_of_ascii "`,
-    char[16] ClOrdID `" ++ [23458; 25143; 35746; 21333; 21495]%N ++ runes_of_ascii "`,
-    char[3] MarketID `" ++ [24066; 22330]%N ++ runes_of_ascii "id`,
-    char[12] SecurityID `" ++ [35777; 21048; 20195; 30721]%N ++ runes_of_ascii "`,
-    char Side `" ++ [20080; 21334; 26041; 21521]%N ++ runes_of_ascii "`,
-    char OrderType `" ++ [35746; 21333; 31867; 22411]%N ++ runes_of_ascii "`,
-    u64 Price `" ++ [20215; 26684]%N ++ runes_of_ascii "`,
-    u32 Qty `" ++ [25968; 37327]%N ++ runes_of_ascii "`,
-    repeat string ExtraInfo `" ++ [38468; 21152; 20449; 24687]%N ++ runes_of_ascii "`,
-    repeat SubOrder {
-        char[16] ClOrdID `" ++ [23376; 35746; 21333; 21495]%N ++ runes_of_ascii "`,
-        u64 Price `" ++ [23376; 35746; 21333; 20215; 26684]%N ++ runes_of_ascii "`,
-        u32 Qty `" ++ [23376; 35746; 21333; 25968; 37327]%N ++ runes_of_ascii "`,
-    },
-}
-
-packet RiskControlResponse {
-    string UniqueOrderId `" ++ [21807; 19968; 35746; 21333; 21495]%N ++ runes_of_ascii "`,
-    i32 Status `" ++ [29366; 24577]%N ++ runes_of_ascii "`,
-    string Msg `" ++ [32467; 26524; 20449; 24687]%N ++ runes_of_ascii "`,
-    repeat Detail,
-}
-
-packet Detail {
-    string RuleName `" ++ [35268; 21017; 21517; 31216]%N ++ runes_of_ascii "`,
-    u16 Code `" ++ [21407; 22240; 20195; 30721]%N ++ runes_of_ascii "`,
-}")).
-Eval vm_compute in ("<<<M118>>>" ++ check (runes_of_ascii "
-packet // c
-zchar { i8 uint8x//
-`a\`,
-    match
-leftPad as matchKey
-// a // b
-// @lengthOf(
-{  007
-    :f32a  ,
-7// " ++ [27880; 37322]%N ++ runes_of_ascii "
-: // " ++ [128512]%N ++ runes_of_ascii " emoji
-falsey ,3
-:_x	, [ ""1"" ] : u8x ,
-    //	t
-    ""it's""
-: i8i8 ,
-    10 :pack , } , repeat string
-rootA`say ""hi""`, repeat
-int32 repeatCount `" ++ [233]%N ++ runes_of_ascii "` , @lengthOf( calculatedFrom)
-zchar[// @lengthOf(
-4294967296 ]
-// @lengthOf(
-// packet A { u8 x, }
-T ,
-    @tag(
-4294967296 )
-crc @calculatedFrom( // packet A { u8 x, }
-"""" )
-, @calculatedFrom(""abc"")u8x	@lengthOf( o) `crlf
-line`, }packet
-//
-// c
-T { i64 repeatCount ,
-    calculatedFrom pack
-,
-@calculatedFrom( ""`tick`"" // packet A { u8 x, }
-)
-    f32a Foo
-, match body as string_ {  ""packet"":	uint8x // " ++ [128512]%N ++ runes_of_ascii " emoji
-,// @lengthOf(
-""" ++ [128512]%N ++ runes_of_ascii """ /// triple
-: body, 007	:
-Logon, ""it's"" // a // b
-:leftPad
-    ,
-[ ""x y"" ,
-255 , ""\" ++ [233]%N ++ runes_of_ascii """,
-1 //
-, 0123456789]: options1 ,} , @rightPad ( '\x00'	)
-    // packet A { u8 x, }
-    match
-//	t
-// @lengthOf(
-As as
-    roots { 4294967296 :len """ ++ [28040; 24687]%N ++ runes_of_ascii """ :msg_type
-, } ,
-    f32 chars ,
-// `tick` ""quote"" 'q'
-// @lengthOf(
-repeat calculatedFrom , @calculatedFrom( ""x y"" ) f32
-roots
-// `tick` ""quote"" 'q'
-//x
-`{ , }` , } root packet calculatedFrom{ }
-")).
-Eval vm_compute in ("<<<M1257>>>" ++ check (runes_of_ascii "//	t
-MetaData i8i8 {
-char packetx`
-`
-// a // b
-// `tick` ""quote"" 'q'
-, // c
-char[]
-Header`" ++ [233]%N ++ runes_of_ascii "` , u32 options1 , Header i8i8
-`two words`
-    , }
-root packet Header {
-    match falsey
-as pack // packet A { u8 x, }
-{// c
-""CRC32"" :crc  ,
-    }
-    ,o rootA //	t
-,
-match  rootA as u { [255
-,
-    ""\n"" ]
-:metadata , 42 : uint8x
-,
-[ """ ++ [128512]%N ++ runes_of_ascii """]
-    :float , // " ++ [128512]%N ++ runes_of_ascii " emoji
-""\n""	: u ,
-3: MetaDataX} ,
-    @leftPad ('\x00' )float64
-    Packet
-@calculatedFrom( ""abc""
-)	`say ""hi""` , repeat u8x	, @lengthOf(
-msg_type )  uint8x
-    // c
-    {
-packetx
-    // " ++ [128512]%N ++ runes_of_ascii " emoji
-    repeatCount
-, asx
-@calculatedFrom(
-""x y"" ) , zchar[007 /// triple
-]
-u `say ""hi""` // c
-, } , repeat i16
-calculatedFrom
-    `
-`// c
-, int16 //	t
-T// " ++ [27880; 37322]%N ++ runes_of_ascii "
-@calculatedFrom( ""a	b"" ) ,
-@rightPad ( )char[00 ]Foo
-    @lengthOf(pack )
-    `tab	here` ,
-    uint8x `" ++ [28040; 24687; 31867; 22411]%N ++ runes_of_ascii "` , } options  {x_y_z = 255; metadata
-= ""CRC32"" ; leftPad =  ""{,}"";
-    u128 = true tag
-= string;
-// " ++ [128512]%N ++ runes_of_ascii " emoji
-// a // b
-} root
-packet x_y_z { @lengthOf(  body
-    ) int32
-    // `tick` ""quote"" 'q'
-    Z9_ @calculatedFrom(
-    ""{,}""
-)`" ++ [28040; 24687; 31867; 22411]%N ++ runes_of_ascii "` // " ++ [128512]%N ++ runes_of_ascii " emoji
-,
-}
-")).
-Eval vm_compute in ("<<<M139>>>" ++ check (runes_of_ascii "
-packet len{ repeat i8i8 `u8 x,`
-    ,
-// @lengthOf(
-// a // b
-repeat char[ // c
-0123456789
-//x
-//
-]	a1 ,
-@rightPad ( )
-// trailing space 
-// " ++ [27880; 37322]%N ++ runes_of_ascii "
-match options1 as
-    string_
-{ 007 :uint8x  [
-""it's"", // c
-""\n"" ] : body } , zchar[ 1
-] float @lengthOf( Header) , @lengthOf( rootA )  @tag(
-    // packet A { u8 x, }
-    00 ) @lengthOf( metadata ) repeat
-    //x
-    metadata { int16
-    // " ++ [27880; 37322]%N ++ runes_of_ascii "
-    i64_
-    ,} ,
-i64_ , zchar[ 0123456789 ] lengthOf @calculatedFrom(""it's"" ) ,  } root
-    packet
-f32a { @leftPad
-    ( '0' ) @leftPad // " ++ [128512]%N ++ runes_of_ascii " emoji
-( '\x00' ) i64_`tab	here`
-,repeat x Packet ,char[ 42 ] Foo @calculatedFrom( ""abc"" ) , int16  uint8x @lengthOf( MetaDataX ) // @lengthOf(
-`a\`
-, // " ++ [27880; 37322]%N ++ runes_of_ascii "
-i8 Header `
-` /// triple
-, repeat//
-Pad
-    A , char[3  ] _x , @calculatedFrom(// trailing space 
-""x y"")
-match MetaDataX	as As {
-//	t
-//x
-[	""a	b"", """ ++ [28040; 24687]%N ++ runes_of_ascii """
-]
-:	options1, [""" ++ [28040; 24687]%N ++ runes_of_ascii """ ,
-""it's""
-    , 3
-    , 7
-,
-42 ,""abc""	] :	_x , """"
-    //	t
-    :
-charz ,
-""a\\"" :// trailing space 
-a1
-, //
-} , @tag( 7 ) u8 float ,
-    }
-")).
-Eval vm_compute in ("<<<M4452>>>" ++ check (runes_of_ascii "packet T {
-    x repeatCount `tab	here`,
-    repeat a1 `a\`,
-    a1 @calculatedFrom(""CRC32""),
-    repeat string msg_type `// not a comment`,// trailing space 
-}
-
-packet uint8x {
-    zchar[65535] roots,
-    i64_ stringy,
-    zchar[0123456789] tag `" ++ [28040; 24687; 31867; 22411]%N ++ runes_of_ascii "`,
-    @tag(42)
-    match i8i8 as Header {
-        [""// no comment"", ""abc"", 255, 65535] : charz,
-        00 : Z9_,
-    },
-    uint8 int @calculatedFrom(""`tick`""),
-    @lengthOf(asx)
-    match crc as trueish {
-        ["""", ""// no comment"", 42, ""packet""] : chars,
-        0 : x,
-        ""packet"" : crc,
-    },
-    @calculatedFrom(""{,}"")
-    repeatCount,
-    @tag(7)
-    BodyLength @calculatedFrom(""a	b""),
-    repeat u32 i64_,
-}
-
-packet f32a {
-    @tag(42)
-    @tag(10)
-    string MetaDataX @calculatedFrom(""" ++ [28040; 24687]%N ++ runes_of_ascii """),
-    //	t
-    crc {
-        a1 @calculatedFrom(""a\\"") `crlf
-        line`,
-        repeat zchar[10] A,
-    },// " ++ [27880; 37322]%N ++ runes_of_ascii "
-    match Packet as Pad {
-        ""CRC32"" : msg_type,
-    },
-    repeat string A `doc`,
-}")).
-Eval vm_compute in ("<<<M1222>>>" ++ check (runes_of_ascii "//	t
-root packet Header{ @tag(
-255  )
-    float32 msg_type
-// @lengthOf(
-// packet A { u8 x, }
-@lengthOf(u8x	) `" ++ [28040; 24687; 31867; 22411]%N ++ runes_of_ascii "` ,
-    //x
-    @calculatedFrom( ""a	b"" )
-    repeat string i64_, repeat x_y_z {//x
-asx , string i8i8 @lengthOf( float ) ,uint16 // `tick` ""quote"" 'q'
-As// @lengthOf(
-@calculatedFrom( ""x y""
-    //
-    )	, }	,//
-@lengthOf( i8i8) msg_type { match
-tag as Z9_ {
-[1
-    // " ++ [27880; 37322]%N ++ runes_of_ascii "
-    , ""packet"" ] : Z9_ ,
-[4294967296	] : options1
-,""\n"" :
-Pad,
-} ,
-    match calculatedFrom as packetx
-{ 0123456789 /// triple
-:	metadata [ """ ++ [233]%N ++ runes_of_ascii "t" ++ [233]%N ++ runes_of_ascii """
-] :
-    T , 1
-    : i64_ , } , //	t
-match BodyLength as chars{ 0
-    : metadata
-,""" ++ [128512]%N ++ runes_of_ascii """
-: u128, ""a\""b"" :
-    calculatedFrom ,
-0
-: As, """ ++ [128512]%N ++ runes_of_ascii """ :x_y_z 7
-    :f32a,}//	t
-,u trueish
-    // " ++ [128512]%N ++ runes_of_ascii " emoji
-    ,
-} , } MetaData charz
-{i32 // " ++ [128512]%N ++ runes_of_ascii " emoji
-x `u8 x,`
-,
-char[]
-calculatedFrom`two words`, int8
-// packet A { u8 x, }
-// trailing space 
-packetx `crlf
-line`	, } MetaData//	t
-charz {
-}
-")).
-Eval vm_compute in ("<<<M3957>>>" ++ check (runes_of_ascii "  packet 
-    // `tick` ""quote"" 'q'
-// `tick` ""quote"" 'q'
-rootA
-{
-@tag(
-3
-
-    )
-zchar[
-
-    00]	// trailing space 
-x_y_z `" ++ [28040; 24687; 31867; 22411]%N ++ runes_of_ascii "` ,	_x , 
-// a // b
-      float64	A
-
-@lengthOf(//
-  u8x  ), u8 rootA
-    `line1
-line2` 
-,
-zchar[
-
-    7 ]// c
-stringy
-
-    , match  Header as f32a 
-{
-	""\" ++ [233]%N ++ runes_of_ascii """ :
-	o	,[ 
-	// `tick` ""quote"" 'q'
-4294967296 ,7,	// c
-    	4294967296
-
-    , 
-""packet""
-	,
-	""a	b""	,
-    ""CRC32""
-, 7 ,
-	""a	b""  // trailing space 
-
-] 
-:  // packet A { u8 x, }
-  repeatCount ,
-
-    ""a\""b""
-	: 
-Header [
-
-    ""a\""b""]	:crc
-	,[	007
-	,
-007
-,	""abc""
-]	:
-
-    metadata  ,4294967296 :
-
-    chars , } 	 // " ++ [128512]%N ++ runes_of_ascii " emoji
-	,
-
-    @tag( 1
-) i8  matchKey	`a\`
-
-, 
-  // @lengthOf(
-		// " ++ [128512]%N ++ runes_of_ascii " emoji
-@lengthOf(
-
-body  )
-tag
-
-, 
-@lengthOf(matchKey )
-@lengthOf(o
-
-    ) @lengthOf(pack
-
-    ) repeat
-	u {
-calculatedFrom
-
-    @lengthOf(
-
-falsey)
-	,  }
-
-,
-
-} ")).
-Eval vm_compute in ("<<<M3652>>>" ++ check (runes_of_ascii "MetaData As {
-    roots repeatCount,
-    char trueish,
-    zchar[255] u128 `crlf
-        line`,
-    char[] int,
-    asx u128 `say ""hi""`,
-    i32 packetx,
-}
-
+Eval vm_compute in ("<<<M1981>>>" ++ check (runes_of_ascii "// top
 options {
-    A = false;
-    packetx = char[0]
-    A = true
-    crc = 1;
-    calculatedFrom = """ ++ [233]%N ++ runes_of_ascii "t" ++ [233]%N ++ runes_of_ascii """
+    // c1
+    LittleEndian = true;// c5a
+    // c5b
+    StringPrefixLenType = u64;// c9a
+    // c9b
+    ArrayPrefixLenType = u8;
+    // c13
+    FixedStringPadChar = '0';// c17
 }
 
-MetaData i8i8 {
-}
-
-packet len {
-    @tag(00)
-    // packet A { u8 x, }
-    uint64 stringy @lengthOf(x_y_z),
-}
-
-packet rootA {
-    // trailing space 
-    @lengthOf(zchar)
-    char _x @lengthOf(x_y_z),//	t
-    string_ @calculatedFrom(""" ++ [233]%N ++ runes_of_ascii "t" ++ [233]%N ++ runes_of_ascii """),// " ++ [128512]%N ++ runes_of_ascii " emoji
-    @lengthOf(A)
-    x_y_z {
-        Pad,
-        match trueish as u8x {
-            4294967296 : u,
-            3 : int,
-            00 : u8x,
-            [
-                ""{,}"", ""a	b"", 0, 3, 0123456789,
-                ""a\""b""
-            ] : body,
-            65535 : T,
-        },
+packet Reject {
+    // c21a
+    // c21b
+    i32 Ref,
+    // c24
+    repeat f64 OrderId,
+    // c28
+    repeat InNote12 {
+        // c31
+        u8 pad0,
+        // c34
     },
-    i32 chars,
+    @leftPad(' ')
+    // c40a
+    // c40b
+    char[6] count,// c45a
+    // c45b
+}
+
+// c46
+packet Logout {
+    // c49
+    zchar[6] Tail,
+    // c54
+    repeat string venue,
+    // c58
+}// c59a
+
+// c59b
+packet Cancel {
+    // c62a
+    // c62b
+    u64 count,
+    // c65
+    repeat char[5] lastPx,// c71a
+    // c71b
+    i64 Tail,
+    // c74
+    repeat InF140 {
+        // c77a
+        // c77b
+        repeat Logout,// c80
+        repeat Reject,// c83a
+        // c83b
+    },// c85
+}
+
+// c86
+root packet Trade {
+    repeat InMsgkind39 {
+        // c93a
+        // c93b
+        repeat Reject,
+        // c96
+        char[4] Px,
+    },// c103a
+    // c103b
+    string Acct,
+    uint16 price,// c109a
+    // c109b
+    f32 OrderId,// c112
+    u16 x,
+    u16 clOrdID @lengthOf(Body),
+    // c121
+    match x as Body {
+        178 : Logout,
+        // c130
+        13 : Cancel,
+        // c134a
+        // c134b
+        174 : Reject,
+        // c138a
+        // c138b
+    },// c140
+    u16 Flags @calculatedFrom(""CRC32""),
+    // c146
 }")).
-Eval vm_compute in ("<<<M1071>>>" ++ check (runes_of_ascii "packet BodyLength {@calculatedFrom( ""1""
-)@tag( 10
+Eval vm_compute in ("<<<M275>>>" ++ check (runes_of_ascii "options { u =""a\""b""
+//	t
+//
+;
+    Z9_ =""// no comment"" ; tag
+    // " ++ [27880; 37322]%N ++ runes_of_ascii "
+    =7 } root packet
+    // trailing space 
+    As { }
+packet Header { @lengthOf(
+    Foo )  rootA
+@calculatedFrom( ""\" ++ [233]%N ++ runes_of_ascii """ ) , @calculatedFrom( ""CRC32""// a // b
 )
-    @lengthOf(
-Pad
-) char[0123456789  ] asx `" ++ [233]%N ++ runes_of_ascii "`
-    ,	char[]	msg_type
-    @calculatedFrom(
-""""	) , @tag(
-4294967296 )repeat a1 {char[ 007
+    float64 crc
+,  repeat char[ // packet A { u8 x, }
+007
+] Logon , //
+@tag( 7
+    )
+//
+// c
+@calculatedFrom( ""{,}"" ) @lengthOf( stringy
+) match //	t
+A as
+// " ++ [128512]%N ++ runes_of_ascii " emoji
+// `tick` ""quote"" 'q'
+f32a {
+    // `tick` ""quote"" 'q'
+    [""a\\""
+,	1 , ""CRC32"" , 007 ,	""a	b"" , ""\" ++ [233]%N ++ runes_of_ascii """ ] :trueish, 4294967296
+    :
 // c
 //x
-]
-Logon
-`crlf
-line`,
-    // a // b
-    u32
-    trueish `u8 x,` ,
-match	Z9_	as body {
-""1"" :	Packet, 0 :
-x, } ,int16 options1 `" ++ [233]%N ++ runes_of_ascii "`
-, }
-    , }options
-{ rootA = true ; // @lengthOf(
-uint8x =
-' ' matchKey
-= char[]
-    ; stringy = ' '  options1 = 4294967296 } options {stringy = true
-chars =
-    ' ' }packet T { string Pad @calculatedFrom( ""\" ++ [233]%N ++ runes_of_ascii """
-    ) , //	t
-repeat
-MetaDataX{repeat
-    u32 // `tick` ""quote"" 'q'
-body `line1
-line2` ,string crc
-@lengthOf(
-// trailing space 
-// " ++ [27880; 37322]%N ++ runes_of_ascii "
-As
-) `" ++ [28040; 24687; 31867; 22411]%N ++ runes_of_ascii "`
-    , } , /// triple
-repeat
-// c
-// trailing space 
-float32 Header
-    `a\` , float`a\`  , }")).
-Eval vm_compute in ("<<<M4170>>>" ++ check (runes_of_ascii "options {
-    len = int8/// triple
-    Header = '0';
-}
-
-packet options1 {
-    @calculatedFrom(""{,}"")
-    repeat body,
-}
-
-packet uint8x {
-    repeat int8 f32a,
-}
-
-packet As {
-    match u128 as o {
-        0 : len,
-        // c
-    },
-    @calculatedFrom("""")
-    zchar As,
-    zchar[00] u8x,
-    @lengthOf(u8x)
-    match stringy as o {
-        [""1"", ""\" ++ [233]%N ++ runes_of_ascii """] : repeatCount,
-        [
-            7, 3, ""1"", 007, ""\n"",
-            0
-        ] : metadata,
-        //	t
-        ""it's"" : o,
-        00 : roots,
-        4294967296 : uint8x,
-    },
-    @calculatedFrom(""it's"")
-    @tag(3)
-    int @lengthOf(int),
-    char[] asx @calculatedFrom(""a\""b"") `a\`,
-    int16 charz,
+u8x ,//
+}  ,
+@tag(
+255 ) @lengthOf( u8x
+    )
+@calculatedFrom( ""x y""
+    ) pack { uint16 uint8x
+    ,
+    }
+, match
+leftPad as
+asx {""{,}"" : T 007
     //	t
-    string x_y_z @lengthOf(int) `a\`,
-    i64 o,
+    : // @lengthOf(
+_x
+    1  : options1
+,
+    [ 42	,007]// a // b
+:calculatedFrom
+, """ ++ [233]%N ++ runes_of_ascii "t" ++ [233]%N ++ runes_of_ascii """ :
+    lengthOf } ,
+    u8x {int64 charz
+`line1
+line2`,
+} , repeat
+    //x
+    Header BodyLength `
+`  ,
+@rightPad  ( // `tick` ""quote"" 'q'
+'\x00' ) @lengthOf( tag )
+    match o // trailing space 
+as
+    uint8x {
+[ 255 ] :
+_x ,1 :
+    matchKey ,
+// " ++ [128512]%N ++ runes_of_ascii " emoji
+//x
+65535
+:
+// c
+// @lengthOf(
+tag
+,  0123456789: zchar,
+""a\\"" :metadata
+    ,
+    }	, }
+")).
+Eval vm_compute in ("<<<M80>>>" ++ check (runes_of_ascii "// `tick` ""quote"" 'q'
+packet	rootA{ }
+root
+packet x_y_z {
+// `tick` ""quote"" 'q'
+// packet A { u8 x, }
+@calculatedFrom( """ ++ [28040; 24687]%N ++ runes_of_ascii """  )// a // b
+@tag( 4294967296) @leftPad	(	'\x00')  match Z9_ as len // c
+{0: x_y_z /// triple
+, [ 255 , 007 ] : string_["""" ,
+""`tick`"" , """" ,
+10 ,""it's"" ,
+    """ ++ [233]%N ++ runes_of_ascii "t" ++ [233]%N ++ runes_of_ascii """ ]	: BodyLength	, 4294967296 : u,4294967296
+    // " ++ [27880; 37322]%N ++ runes_of_ascii "
+    :	Header ,
+""packet"": trueish , }
+,
+match int as asx { 007 : leftPad , ""abc"":
+_x
+65535 :stringy ""CRC32"" : int , 255 : A }, match asx as a1  {	[ 0123456789 ]: crc,""packet"" : leftPad ,
+    ""\n"" : //x
+crc
+, 10
+    //x
+    :
+// a // b
+// a // b
+chars ,},
+    i16
+rootA @calculatedFrom(
+""abc"" ) , @lengthOf(Pad)  rootA As`" ++ [233]%N ++ runes_of_ascii "`,match i64_
+    //	t
+    as packetx{	[ """ ++ [28040; 24687]%N ++ runes_of_ascii """ ] :repeatCount
+, 65535 : i8i8 ,
+    } , // a // b
+stringy len , }packet o{
+} packet
+Header {	_x
+string_ ,
+@lengthOf(
+    u8x )
+lengthOf `it's`
+, } options
+    { A // trailing space 
+= ""it's"";
+zchar
+= ""packet"" ; // " ++ [128512]%N ++ runes_of_ascii " emoji
+len
+= 4294967296 ; T= ""abc""int
+    =
+3 ; }
+")).
+Eval vm_compute in ("<<<M1854>>>" ++ check (runes_of_ascii "packet trueish {
+    char[7] chars @calculatedFrom(""" ++ [128512]%N ++ runes_of_ascii """),
+    char[] uint8x @calculatedFrom(""`tick`"") `
+        `,
+    int16 metadata @calculatedFrom(""" ++ [128512]%N ++ runes_of_ascii """) `doc`,
+    pack @lengthOf(stringy),
+    u8 float @lengthOf(leftPad),
+    @lengthOf(chars)
+    f32a trueish,
+    repeat zchar[4294967296] u,
+    @leftPad(' ')
+    @lengthOf(leftPad)
+    @tag(7)
+    repeat string u128,
 }
 
-root packet zchar {
+packet Header {
+    u64 leftPad,
+    @lengthOf(u128)
+    repeat uint32 T,
+    @tag(4294967296)
+    repeat uint32 x_y_z ``,
+    T,
+    @tag(1)
+    zchar[7] Packet @lengthOf(f32a),// trailing space 
+    float32 lengthOf,// packet A { u8 x, }
+    i32 calculatedFrom `crlf
+        line`,
+    @tag(0123456789)
+    @tag(1)
+    //
+    // `tick` ""quote"" 'q'
+    @calculatedFrom(""" ++ [128512]%N ++ runes_of_ascii """)
+    float32 lengthOf @calculatedFrom(""\n"") `" ++ [233]%N ++ runes_of_ascii "`,
+    zchar[007] zchar @calculatedFrom(""abc"") `" ++ [28040; 24687; 31867; 22411]%N ++ runes_of_ascii "`,
+    int32 roots,
 }")).
-Eval vm_compute in ("<<<M3536>>>" ++ check (runes_of_ascii "options {
+Eval vm_compute in ("<<<M1549>>>" ++ check (runes_of_ascii "root packet lengthOf {
+    repeat char[] asx `// not a comment`,
+    lengthOf {
+        string options1,
+        char[] A @calculatedFrom(""\n""),
+        int16 trueish,
+    },
+    repeat int16 stringy,
+    string Logon `{ , }`,
+    @lengthOf(metadata)
+    match trueish as Foo {
+        00 : T,
+        7 : Z9_,
+    },
+    string_ a1 `" ++ [28040; 24687; 31867; 22411]%N ++ runes_of_ascii "`,
+}
+
+packet zchar {
+    @calculatedFrom(""x y"")
+    repeatCount `
+        `,
+    match stringy as u {
+        255 : charz,
+    },
+    zchar[0123456789] Z9_ @lengthOf(crc) `it's`,
+    @leftPad('\x00')
+    zchar[0] rootA @calculatedFrom(""CRC32""),
+    @lengthOf(leftPad)
+    // packet A { u8 x, }
+    Foo @calculatedFrom(""{,}""),
+    uint32 Foo `// not a comment`,
+    f32 float,
+    repeat matchKey,
+    Logon @lengthOf(rootA) `" ++ [28040; 24687; 31867; 22411]%N ++ runes_of_ascii "`,
+}")).
+Eval vm_compute in ("<<<M1453>>>" ++ check (runes_of_ascii "options {
     StringPrefixLenType = u16;
     ArrayPrefixLenType = u32;
     FixedStringPadFromLeft = false;
@@ -893,1018 +348,482 @@ root packet Order {
     u32 Tail @calculatedFrom(""CRC32""),
 }
 ")).
-Eval vm_compute in ("<<<M803>>>" ++ check (runes_of_ascii "packet int { Packet{ match x  as asx	{	""" ++ [233]%N ++ runes_of_ascii "t" ++ [233]%N ++ runes_of_ascii """:
-    //	t
-    i64_
-1 : /// triple
-o 255
-    : MetaDataX// packet A { u8 x, }
-""\n""
-    : chars ,
-}// packet A { u8 x, }
-, } , pack rootA
+Eval vm_compute in ("<<<M113>>>" ++ check (runes_of_ascii "root packet Pad{ @lengthOf( _x) As i8i8 ,f32 lengthOf
+`a\`	,
+    // " ++ [27880; 37322]%N ++ runes_of_ascii "
+    repeat len  `tab	here` , zchar[ //	t
+3 ] body, int8 matchKey
+    `crlf
+line` ,}
+    MetaData metadata { matchKey  packetx
     ,
-zchar[
-// a // b
-// " ++ [27880; 37322]%N ++ runes_of_ascii "
-1
-] T ,
-    } packet u{
-    zchar `tab	here` , zchar[ 255
-    ]metadata ,repeat _x{// " ++ [128512]%N ++ runes_of_ascii " emoji
-zchar
-{ f32a repeatCount
-// packet A { u8 x, }
-// packet A { u8 x, }
-`it's` //
-,  }
-,
-} ,// @lengthOf(
-@leftPad // packet A { u8 x, }
-(  ' ' )  x_y_z	@calculatedFrom( // `tick` ""quote"" 'q'
-""{,}"" ) `{ , }`
-    , repeat
-A a1 `u8 x,`, Foo @calculatedFrom( ""{,}""),}packet Pad {
-@tag( 7 ) @lengthOf( // c
-stringy ) @calculatedFrom(""" ++ [28040; 24687]%N ++ runes_of_ascii """  ) repeat
-    stringy ,
-char
-crc,
-    }
-")).
-Eval vm_compute in ("<<<M42>>>" ++ check (runes_of_ascii "packet Header { @lengthOf( BodyLength)string body	@lengthOf(	zchar	)  `two words` , @lengthOf( rootA )i32 metadata `it's` ,
-    @tag( 00 ) // trailing space 
-msg_type@lengthOf( // " ++ [27880; 37322]%N ++ runes_of_ascii "
-As )  ,
-int { repeat string
-//
-//	t
-u128 `" ++ [233]%N ++ runes_of_ascii "`,
-    match MetaDataX as packetx {[ 1	,0] : MetaDataX
-    , ""{,}"" :calculatedFrom ,} ,
-    // trailing space 
-    match asx as Logon  {
-7 :uint8x  , 00 : x_y_z
-,
-    ""\" ++ [233]%N ++ runes_of_ascii """
-    : o ,""" ++ [233]%N ++ runes_of_ascii "t" ++ [233]%N ++ runes_of_ascii """
-:chars /// triple
-, } , body
-// `tick` ""quote"" 'q'
-// a // b
-i64_ `crlf
-line` , },	a1
-    `line1
-line2`  ,
-// `tick` ""quote"" 'q'
-// a // b
-chars `// not a comment`	,@tag( 7
-    )
-leftPad charz	, int64 a1 @calculatedFrom(
-""\n""
-)  ,
-}")).
-Eval vm_compute in ("<<<M835>>>" ++ check (runes_of_ascii "root packet
-x{
-    // trailing space 
-    @lengthOf(
-u)// " ++ [27880; 37322]%N ++ runes_of_ascii "
-@tag( 00 )
-    @calculatedFrom(
-""x y""// @lengthOf(
-) float64 stringy@calculatedFrom(
-"""" ) ,  @leftPad( '0'
-) Pad @lengthOf( i8i8
-    )
-,
-    match metadata
-    as crc //	t
-{ ""abc""
-    : calculatedFrom ,// @lengthOf(
-[1
-, 3 ,	"""" , ""a	b"" ,
-007
-,""a\""b"",
-    42
-, ""it's"" ]
-: msg_type , 4294967296// @lengthOf(
-:
-repeatCount
-,[ 0 ] : T	, 4294967296:
-f32a ,	42 :
-u
-    , } ,
-    @leftPad(' ' ) uint64 A	@calculatedFrom(""`tick`"" ) , match
-// c
-//
-roots as Packet { ""packet"" :
-    uint8x//
-, 0
-: Packet},  } options
-{  int = ""CRC32"" charz= ""CRC32""
-Foo = true
-    ; } 	 ")).
-Eval vm_compute in ("<<<M868>>>" ++ check (runes_of_ascii "packet Z9_
-{ } root packet u  {
-@lengthOf( int ) f64	tag
-`" ++ [28040; 24687; 31867; 22411]%N ++ runes_of_ascii "`	,
-    @calculatedFrom(
-// c
-/// triple
-""CRC32""
-    ) calculatedFrom
-// @lengthOf(
-/// triple
-@lengthOf(//
-a1
-    )`two words` , @rightPad (	'\x00'//	t
-) @rightPad(
-) @calculatedFrom(""it's"" ) string int
-/// triple
-// `tick` ""quote"" 'q'
-@calculatedFrom(
-    ""\n"" )`// not a comment`, repeat	f32a { string_
-    @calculatedFrom( ""abc"" ) `" ++ [28040; 24687; 31867; 22411]%N ++ runes_of_ascii "` , zchar[65535 ] metadata
-, match i8i8
-    as
-len	{""// no comment"":
-repeatCount
-,	[
-    ""{,}""
-// c
-//x
-, 65535] : Header
-,} ,  } ,
-}packet int {
-repeat int32 pack `tab	here` , }
-")).
-Eval vm_compute in ("<<<M293>>>" ++ check (runes_of_ascii "root packet zchar { @rightPad (  ) repeat
-uint32 Pad  ,
-// a // b
-// c
-char[ 4294967296 ] f32a @calculatedFrom( """" )
-`u8 x,`
-, uint16 BodyLength @lengthOf( packetx)
-`it's`  , @calculatedFrom( ""a\\"" ) string falsey // c
-`a\`
-    , matchKey Packet`it's` , match trueish as matchKey
-{ ""\n"" : trueish [ ""\n"" ,
-3]
-    : len , [ 10  ] : Logon // `tick` ""quote"" 'q'
-0123456789
-: packetx ,  ""it's"" :
-Pad , 42
-// @lengthOf(
-// a // b
-:
-    falsey , } ,
-match metadata
-    as rootA { """ ++ [128512]%N ++ runes_of_ascii """ : Header ,
-255 : T ,0123456789 : tag
-    , ""x y""
-: MetaDataX ,} ,}")).
-Eval vm_compute in ("<<<M3821>>>" ++ check (runes_of_ascii "
-packet trueish { @tag( 
-007
-)len
-	{ string
-	float
-
-    ,
-    // packet A { u8 x, }
-  repeat 
-    // c
-	//	t
-
-	Z9_
-`tab	here` 
-,	f32	A @calculatedFrom( ""CRC32"" ) 
-, } ,match
-    BodyLength	// " ++ [27880; 37322]%N ++ runes_of_ascii "
-		as// `tick` ""quote"" 'q'
-  int  { 1 
-:
-msg_type
-,	""" ++ [128512]%N ++ runes_of_ascii """	// @lengthOf(
-  :falsey
-    // a // b
-  ,
-	// " ++ [128512]%N ++ runes_of_ascii " emoji
-
-  /// triple
-  ""// no comment""  /// triple
-:x_y_z// @lengthOf(
 }
-,  repeat // @lengthOf(
-  i32
-rootA	`doc`
-,
-
-}
-
-packet asx
-
-    {	}options	// `tick` ""quote"" 'q'
-    {
-
-    T
-
-    =
-""a	b""
-    }")).
-Eval vm_compute in ("<<<M815>>>" ++ check (runes_of_ascii "root packet o { options1 repeatCount,
-zchar[ 0 ]_x , @tag( 4294967296
-) char[]
-    options1`doc`
-    , i64_ , u16 len`two words`	,	match
-pack as u{ 10 :
-a1
-,} ,
-@calculatedFrom( ""abc""
-) repeat int int
-`// not a comment`,repeat chars	{
-    lengthOf tag `" ++ [233]%N ++ runes_of_ascii "` , repeat x { repeat uint8 matchKey ``
-, //x
-string// trailing space 
-roots //	t
-`two words`	,int64 len @lengthOf(  Header ) ,}
-,repeat char[]
-// `tick` ""quote"" 'q'
-// " ++ [128512]%N ++ runes_of_ascii " emoji
-Z9_
-`tab	here`	,
-}
+    packet options1	{ repeat charz `line1
+line2`, int8 options1
+    // " ++ [27880; 37322]%N ++ runes_of_ascii "
     ,
-// `tick` ""quote"" 'q'
-// c
-} //x")).
-Eval vm_compute in ("<<<M350>>>" ++ check (runes_of_ascii "packet uint8x{ string_	{ repeat zchar
-    {
-// `tick` ""quote"" 'q'
-//x
-match u128
-as A{42 : pack
-    , }, // " ++ [27880; 37322]%N ++ runes_of_ascii "
-int64  u128	, repeatCount `it's` // trailing space 
-, string asx
-//	t
-//	t
-@calculatedFrom( ""a\""b"" ) , }
-    ,
-matchKey
-@calculatedFrom( ""1"" ) , } ,
-match o as
-Z9_
+    repeat	roots
 {
-    // a // b
-    [ 7	] : uint8x ,
-[ 00 // `tick` ""quote"" 'q'
-,// " ++ [128512]%N ++ runes_of_ascii " emoji
-""" ++ [233]%N ++ runes_of_ascii "t" ++ [233]%N ++ runes_of_ascii """  , ""\" ++ [233]%N ++ runes_of_ascii """// trailing space 
-]  : Packet ,// a // b
-} ,f32
-A, }root
-    packet Foo{	repeat	float32	msg_type , }
-")).
-Eval vm_compute in ("<<<M3509>>>" ++ check (runes_of_ascii "
-options
-{
-    LittleEndian 
-= false
-; StringPrefixLenType
-=
-
-    u32
-;
-    ArrayPrefixLenType=
-	u16
-    ;
-
-    } packet
-	Party
-	{@leftPad
-(
-
-'0' )  char[	12 
-]
-
-    Ref
-
-,	repeat
-    char[
-
-    6
-	]	x
-, }
-packet
-    Logon {
-
-    uint32 clOrdID, Party, }
-
-    root
-
-    packet
-Ack {
-zchar[2
-
-]  f1 
-,	u32 
-seqNo
-
-    ,
-
-    u32
-
-    Side2
-	@lengthOf( 
-Body
-
-), 
-match
-seqNo 
-as  Body {
-43
-:
-
-    Logon , 93: 
-Party
-,} ,
-}
-
-")).
-Eval vm_compute in ("<<<M808>>>" ++ check (runes_of_ascii "packet
-    x
-{
-} MetaData calculatedFrom { } MetaData x_y_z{
-char u , char[]u8x ,// a // b
-char[ 0123456789 ] u128
-//x
-/// triple
-`say ""hi""`
-    ,zchar rootA , f64 x_y_z,
-    } packet uint8x { @calculatedFrom( // " ++ [128512]%N ++ runes_of_ascii " emoji
-""a\""b""
-)  @calculatedFrom( ""CRC32""	)
-repeat char[] trueish ,
-}root packet falsey
-    { repeat// `tick` ""quote"" 'q'
-uint8x
-{ string metadata
-    @calculatedFrom(
-    ""a\\"" )	`" ++ [28040; 24687; 31867; 22411]%N ++ runes_of_ascii "`	, Foo @lengthOf( falsey
-), },}
-")).
-Eval vm_compute in ("<<<M4518>>>" ++ check (runes_of_ascii "options {
-    LittleEndian = false;
-    StringPrefixLenType = u8;
-    ArrayPrefixLenType = u16;
-    FixedStringPadFromLeft = false;
-}
-
-packet Heartbeat {
-    u8 seqNo,
-    @rightPad('\x00')
-    char[8] x,
-}
-
-root packet Trade {
-    repeat Heartbeat,
-    float32 OrderId,
-    i64 Acct,
-    u16 Qty,
-    u16 clOrdID,
-    match clOrdID as Body {
-        131 : Heartbeat,
-    },
-    u16 sym @calculatedFrom(""CR\
-    C32""),
-}")).
-Eval vm_compute in ("<<<M1324>>>" ++ check (runes_of_ascii "
-root	packet A
+repeat	float32	x_y_z `say ""hi""`,	}
 // c
-// c
-{/// triple
-repeat string Packet`say ""hi""` ,} MetaData o { char[] u128 `line1
-line2`, lengthOf x_y_z , char[1 ]	i8i8 `a\` , int16 leftPad
-    // a // b
-    `two words`
-    , i16 asx
-,
-} // packet A { u8 x, }
-MetaData
-    charz
-    { Header	a1 , Header // a // b
-trueish
-`u8 x,` // `tick` ""quote"" 'q'
-, u128
-stringy, uint8
-matchKey , uint32 options1, matchKey
-    i8i8 , }")).
-Eval vm_compute in ("<<<M1288>>>" ++ check (runes_of_ascii "packet
-int // @lengthOf(
-{ string crc `{ , }` , repeat	uint8
-roots `doc` ,u32 Logon `
-` ,	}packet
-// " ++ [27880; 37322]%N ++ runes_of_ascii "
-//
-x_y_z
-{metadata {Pad @calculatedFrom( ""it's""
-) `crlf
-line` , char[]asx
-    , Z9_ @lengthOf( x
-    ) `two words` , },tag
-    x_y_z `it's` , @calculatedFrom( ""a	b"" )
-@calculatedFrom(""{,}""
-    ) @rightPad
-    // trailing space 
-    (
-    '\x00'
-    )
-int64 packetx //x
-`` , }")).
-Eval vm_compute in ("<<<M79>>>" ++ check (runes_of_ascii "options { len =
-    255 tag=""" ++ [233]%N ++ runes_of_ascii "t" ++ [233]%N ++ runes_of_ascii """ }packet	packetx
-{
-    } options { repeatCount= '\x00' ; x = 4294967296 len =
-false	; A =
-    false ;Packet
-= """" // " ++ [27880; 37322]%N ++ runes_of_ascii "
-;
-    }MetaData
-    x  {
-//
-// `tick` ""quote"" 'q'
-uint32 roots,  lengthOf o `
-`	,
-u32
-    x_y_z `line1
-line2` ,
-    int64  msg_type
 // a // b
-//
-`crlf
-line`	, string repeatCount `line1
-line2` , u128 stringy
-    , }")).
-Eval vm_compute in ("<<<M3686>>>" ++ check (runes_of_ascii "  packet
-	metadata{char[ 0
-
-    ] 
-Z9_ `line1
-line2`
-,
-
-} root
-	packet	chars
-	{
-    /// triple
-  	// @lengthOf(
-	As {
-zchar[	3
-
-    ]
-BodyLength @calculatedFrom(  ""it's""  )
+,int64 options1 // `tick` ""quote"" 'q'
 `line1
-line2` ,	} ,
-}
-	packet
-o 
-{
-
-    @rightPad
-    // trailing space 
-	// trailing space 
-(
-'\x00'
-) string
-
-f32a
-
-@calculatedFrom(
-""it's""
-)`// not a comment` , }
-")).
-Eval vm_compute in ("<<<M87>>>" ++ check (runes_of_ascii "options {
-    x_y_z	= false
-;
-    stringy =
-    """ ++ [233]%N ++ runes_of_ascii "t" ++ [233]%N ++ runes_of_ascii """;
-    // trailing space 
-    crc =
-""" ++ [128512]%N ++ runes_of_ascii """  i8i8=
-'0'
-    ;
-}
-    // `tick` ""quote"" 'q'
-    packet _x { match u128 as tag { ""CRC32"" :stringy , 3
-    //	t
-    : repeatCount ,// " ++ [27880; 37322]%N ++ runes_of_ascii "
-""\" ++ [233]%N ++ runes_of_ascii """ :	float,	[
-"""" ,  """"	, """ ++ [28040; 24687]%N ++ runes_of_ascii """ , ""a\""b"" ]
-    : u8x ,""1""
-:
-    x_y_z
-, } , }packet stringy {
-}
-// " ++ [128512]%N ++ runes_of_ascii " emoji
-")).
-Eval vm_compute in ("<<<M158>>>" ++ check (runes_of_ascii "packet crc { // " ++ [128512]%N ++ runes_of_ascii " emoji
-int `" ++ [28040; 24687; 31867; 22411]%N ++ runes_of_ascii "`,  repeat Header	`doc` ,
-    @tag(
-    // " ++ [128512]%N ++ runes_of_ascii " emoji
-    65535 )
-    leftPad BodyLength
-    `// not a comment` // " ++ [128512]%N ++ runes_of_ascii " emoji
-, /// triple
-char[ 42 ]
-    roots	`` // a // b
-, } packet
-    uint8x
-    // `tick` ""quote"" 'q'
-    { @lengthOf(
-i8i8 )
-// trailing space 
-//	t
-Pad
-    MetaDataX//	t
-,}
-")).
-Eval vm_compute in ("<<<M136>>>" ++ check (runes_of_ascii "options { As
-=char[007 ] ;_x // a // b
-=1
-;
-    matchKey
-    =true
-;
-Logon // trailing space 
-= ' ' ;
-    stringy =/// triple
-zchar[007  ] ;
-    } root
-    packet MetaDataX { //x
-match leftPad
-    as Logon { 255
-    : packetx [0123456789
-    ]
-    : x_y_z
-, 10
-// `tick` ""quote"" 'q'
-// a // b
-: rootA} , }")).
-Eval vm_compute in ("<<<M1432>>>" ++ check (runes_of_ascii "root packet Foo // " ++ [128512]%N ++ runes_of_ascii " emoji
-{ @lengthOf( options {
-    // a // b
-    tag // `tick` ""quote"" 'q'
-= //	t
-""""
-    ; u8x = zchar[0  ] }
-MetaData
-    int {zchar[ 10]
-lengthOf	`` , i64 u8x`// not a comment` ,MetaDataX pack// `tick` ""quote"" 'q'
-`crlf
-line`
-, Logon charz `crlf
-line`
-    ,
-    // a // b
-    }
-")).
-Eval vm_compute in ("<<<M1455>>>" ++ check (runes_of_ascii "root packet Foo // " ++ [128512]%N ++ runes_of_ascii " emoji
-{ } options {
-    // a // b
-    tag // `tick` ""quote"" 'q'
-= //	t
-"""" """"
-    ; u8x = zchar[0  ] }
-MetaData
-    int {zchar[ 10]
-lengthOf	`` , i64 u8x`// not a comment` ,MetaDataX pack// `tick` ""quote"" 'q'
-`crlf
-line`
-, Logon charz `crlf
-line`
-    ,
-    // a // b
-    }
-")).
-Eval vm_compute in ("<<<M1600>>>" ++ check (runes_of_ascii "root packet Foo // " ++ [128512]%N ++ runes_of_ascii " emoji
-{ } options {
-    // a // b
-    tag // `tick` ""quote"" 'q'
-= //	t
-""""
-    ; u8x = zchar[0  ] }
-MetaData
-    int {zchar[ 10]
-lengthOf	`` , i64 u8x`// not a comment` ,MetaDataX pack// `tick` ""quote"" 'q'
-`crlf
-line`
-, Logon charz `crlf
-line`
-    ,
-    // a // b
-    } }
-")).
-Eval vm_compute in ("<<<M1452>>>" ++ check (runes_of_ascii "root packet Foo // " ++ [128512]%N ++ runes_of_ascii " emoji
-{ } options {
-    // a // b
-    tag // `tick` ""quote"" 'q'
-} //	t
-""""
-    ; u8x = zchar[0  ] }
-MetaData
-    int {zchar[ 10]
-lengthOf	`` , i64 u8x`// not a comment` ,MetaDataX pack// `tick` ""quote"" 'q'
-`crlf
-line`
-, Logon charz `crlf
-line`
-    ,
-    // a // b
-    }
-")).
-Eval vm_compute in ("<<<M43>>>" ++ check (runes_of_ascii "MetaData Foo
+line2` , match  falsey
+as falsey
     {
-    chars i8i8 ,  }MetaData
-// trailing space 
-// " ++ [27880; 37322]%N ++ runes_of_ascii "
-BodyLength{calculatedFrom a1 `it's`
-,
-} packet Z9_ //	t
-{ @calculatedFrom(
-    """ ++ [128512]%N ++ runes_of_ascii """ ) @lengthOf( metadata )
-    string a1
-    /// triple
-    `{ , }` ,
-    match
-u8x as o { 10
-:  Foo // @lengthOf(
-, ""abc"" : falsey},
-}
-")).
-Eval vm_compute in ("<<<M655>>>" ++ check (runes_of_ascii "
-packet Z9_
-{ i8 x_y_z @lengthOf( u128 // packet A { u8 x, }
-)	, }packet stringy
-{
-@rightPad ( '0'
-) match repeatCount
-as Foo
-    {007 : float
-    }
-,@tag( 0 )repeat	zchar[ 4294967296 ] zchar `" ++ [233]%N ++ runes_of_ascii "` ,
-}MetaData roots {  u8x Pad
-`u8 x,` , uint8 packetx
-,
-/// triple
-// packet A { u8 x, }
-}
-")).
-Eval vm_compute in ("<<<M1279>>>" ++ check (runes_of_ascii "root packet packetx
-{ char[ 65535] u
-    , @lengthOf( MetaDataX
-) @lengthOf( rootA ) @lengthOf( u8x
-)  zchar[ 3 ]zchar`
-` ,
-// packet A { u8 x, }
-//	t
-lengthOf len	, repeat A	{
-    // c
-    lengthOf @calculatedFrom( ""x y"" ) ,	zchar[
-// a // b
-// " ++ [27880; 37322]%N ++ runes_of_ascii "
-007]zchar @lengthOf( float	) ,} ,}
-")).
-Eval vm_compute in ("<<<M1549>>>" ++ check (runes_of_ascii "root packet Foo // " ++ [128512]%N ++ runes_of_ascii " emoji
-{ } options {
-    // a // b
-    tag // `tick` ""quote"" 'q'
-= //	t
-""""
-    ; u8x = zchar[0  ] }
-MetaData
-    int {zchar[ 10]
-lengthOf	`` , i64 u8x ,MetaDataX pack// `tick` ""quote"" 'q'
-`crlf
-line`
-, Logon charz `crlf
-line`
-    ,
-    // a // b
-    }
-")).
-Eval vm_compute in ("<<<M766>>>" ++ check (runes_of_ascii "root packet // trailing space 
-crc { @lengthOf(
-//	t
-// " ++ [27880; 37322]%N ++ runes_of_ascii "
-i8i8 )@tag( 42 ) @calculatedFrom( ""CRC32"" )
-//	t
-//x
-repeat x uint8x ,	zchar[
-    // a // b
-    0 ]x_y_z @lengthOf(
-    stringy ), As trueish ,
-} // " ++ [27880; 37322]%N ++ runes_of_ascii "
-root// packet A { u8 x, }
-packet chars{
-    } // " ++ [27880; 37322]%N)).
-Eval vm_compute in ("<<<M1385>>>" ++ check (runes_of_ascii "packet
-    metadata  { @rightPad
-    //x
-    ( '\x00'
-    // c
-    )
-@rightPad
-    ( '\x00'  ) char[] _x @calculatedFrom( ""a\\""	) ,repeat int64
-    roots , repeat // trailing space 
-zchar[ 007 // c
-] i64_,
-match	A
-    as o{
-""1""	: Foo ,
-    } , //x
+    [ ""// no comment""// packet A { u8 x, }
+, """"]:_x  , 42 : // @lengthOf(
+crc ""packet"" : repeatCount, """ ++ [128512]%N ++ runes_of_ascii """
+    //	t
+    :u8x , ""abc""
+: falsey, } , repeat	float64
+x_y_z `a\`,
 }")).
-Eval vm_compute in ("<<<M108>>>" ++ check (runes_of_ascii "packet T {	match Packet as
-// c
-// " ++ [27880; 37322]%N ++ runes_of_ascii "
-Header { 42 : BodyLength , ""// no comment""
-// `tick` ""quote"" 'q'
-// packet A { u8 x, }
-: matchKey ""`tick`"" :
-crc ,	[ 1  ]	:o, } ,	}// " ++ [128512]%N ++ runes_of_ascii " emoji
-packet As {
-} options  { u128
-= //x
-' '
-body=
-    char[] }
-")).
-Eval vm_compute in ("<<<M359>>>" ++ check (runes_of_ascii "
-MetaData falsey
-{uint64
-matchKey
-`// not a comment` ,	char Pad
+Eval vm_compute in ("<<<M1494>>>" ++ check (runes_of_ascii "packet float	{char[ 
+00
+
+    ] u8x 
+,
+    }
+    packet // " ++ [128512]%N ++ runes_of_ascii " emoji
+	A	// @lengthOf(
+{
+    string i8i8
     ,
-    int16 Pad
-// packet A { u8 x, }
-// @lengthOf(
-`" ++ [28040; 24687; 31867; 22411]%N ++ runes_of_ascii "`// @lengthOf(
-,
-    zchar[ 00 ]x_y_z, char[] // packet A { u8 x, }
-i64_ , Logon repeatCount `tab	here` ,}")).
-Eval vm_compute in ("<<<M2308>>>" ++ check (runes_of_ascii "MetaData Packet { }packet	asx  { @lengthOf( asx) falsey`crlf
-line`
-,
-    }
-    packet x	{uint32// @lengthOf(
-rootA	@lengthOf(u32 options1 `say ""hi""` , @tag( 7
-    )// packet A { u8 x, }
-msg_type @lengthOf(
-stringy	)	, }
+	A 	 //x
+  @calculatedFrom(
 
-")).
-Eval vm_compute in ("<<<M4506>>>" ++ check (runes_of_ascii "packet
-u8x {int32
-o
+    ""a	b""
 
-    ,}
-    options{//x
-	options1=
+) `a\`
 
-    10 
-	// a // b
-  Header=
-1	// " ++ [27880; 37322]%N ++ runes_of_ascii "
-; lengthOf
-	=
-'\x00'
-;
-	} root packet// packet A { u8 x, }
-falsey
-{	@lengthOf( 
-Header )
-	Foo
-    `" ++ [28040; 24687; 31867; 22411]%N ++ runes_of_ascii "`
-
-    ,
-}
-")).
-Eval vm_compute in ("<<<M2366>>>" ++ check (runes_of_ascii "MetaData Packet { }packet	asx  { @lengthOf( asx) falsey`crlf
-line`
-,
-    }
-    packet x	{uint32// @lengthOf(
-rootA	,u32 options1 `say ""hi""` , @tag( 7
-    )// packet A { u8 x, }
-msg_type @lengthOf(
-stringy	)	, , }
-
-")).
-Eval vm_compute in ("<<<M2252>>>" ++ check (runes_of_ascii "MetaData Packet { }packet	asx  { @lengthOf( )asx falsey`crlf
-line`
-,
-    }
-    packet x	{uint32// @lengthOf(
-rootA	,u32 options1 `say ""hi""` , @tag( 7
-    )// packet A { u8 x, }
-msg_type @lengthOf(
-stringy	)	, }
-
-")).
-Eval vm_compute in ("<<<M2270>>>" ++ check (runes_of_ascii "MetaData Packet { }packet	asx  { @lengthOf( asx) falsey`crlf
-line`
-
-    }
-    packet x	{uint32// @lengthOf(
-rootA	,u32 options1 `say ""hi""` , @tag( 7
-    )// packet A { u8 x, }
-msg_type @lengthOf(
-stringy	)	, }
-
-")).
-Eval vm_compute in ("<<<M4178>>>" ++ check (runes_of_ascii "options
-
-    {// `tick` ""quote"" 'q'
-	}
-    options // packet A { u8 x, }
-{As=""\n""
-
-    // `tick` ""quote"" 'q'
-  // a // b
-;
-
-} MetaData 
-msg_type
-    { 
-string trueish
-	,	}
-options{A
-=
-    ""{,}"" ;
-
-    }")).
-Eval vm_compute in ("<<<M2248>>>" ++ check (runes_of_ascii "MetaData Packet { }packet	asx  { ; asx) falsey`crlf
-line`
-,
-    }
-    packet x	{uint32// @lengthOf(
-rootA	,u32 options1 `say ""hi""` , @tag( 7
-    )// packet A { u8 x, }
-msg_type @lengthOf(
-stringy	)	, }
-
-")).
-Eval vm_compute in ("<<<M2359>>>" ++ check (runes_of_ascii "MetaData Packet { }packet	asx  { @lengthOf( asx) falsey`crlf
-line`
-,
-    }
-    packet x	{uint32// @lengthOf(
-rootA	,u32 options1 `say ""hi""` , @tag( 7
-    )// packet A { u8 x, }
-msg_type @lengthOf(")).
-Eval vm_compute in ("<<<M674>>>" ++ check (runes_of_ascii "
-MetaData
-// packet A { u8 x, }
-//x
+    ,  @tag(1
+	) chars  @lengthOf(
 Pad
-    {int32 MetaDataX, trueish
-//x
-// " ++ [128512]%N ++ runes_of_ascii " emoji
-o `crlf
-line` , string
-Foo , uint32
-    int
-    `two words` ,
-string
-Foo,  string MetaDataX `` //
-, }
-")).
-Eval vm_compute in ("<<<M4078>>>" ++ check (runes_of_ascii "packet A {
-    Inner {
-        match k as n {
-            [
-                1, 22, 007, 4, 5,
-                66, 7, 8, 9, 10,
-                11
-            ] : B,
-        },
-    },
-}")).
-Eval vm_compute in ("<<<M1203>>>" ++ check (runes_of_ascii "packet i8i8
-    { int64	BodyLength	@calculatedFrom( ""packet"")	,  @leftPad()
-    zchar[ /// triple
-1 ] calculatedFrom ,
-    repeat
-x_y_z , //	t
-T A
-, }MetaData
-charz {
-} // " ++ [27880; 37322]%N)).
-Eval vm_compute in ("<<<M1140>>>" ++ check (runes_of_ascii "packet MetaDataX{repeat Z9_ Header , @lengthOf( rootA
-)  stringy
-`it's` ,
-@tag(65535
-    )
-repeat
-    Pad// packet A { u8 x, }
-x
-    `
-`//x
-, char[ 42 ] As `doc`
-,	}
-")).
-Eval vm_compute in ("<<<M3859>>>" ++ check (runes_of_ascii "packet A {
-    match k as n {
-        [
-            1, 22, ""c c"", 4, 5,
-            ""f"", 7, 8, ""i"", 10,
-            11, ""l""
-        ] : B,
-        2 : C,
-    },
-}")).
-Eval vm_compute in ("<<<M185>>>" ++ check (runes_of_ascii "options {  Logon =
-    ""{,}"" } //	t
-MetaData leftPad { i8 zchar `// not a comment`, } MetaData len
-    {char[] u128	,} // " ++ [27880; 37322]%N ++ runes_of_ascii "
-root
-    packet Pad
+
+    ) 
+`u8 x,` 
+,	/// triple
+  match 
+repeatCount
+
+    as  stringy
 {
-    }")).
-Eval vm_compute in ("<<<M4338>>>" ++ check (runes_of_ascii "packet msg_type {
-    char[] body @calculatedFrom(""1"") `doc`,
-    @tag(00)
-    lengthOf @lengthOf(trueish) `crlf
-        line`,
-}// trailing space ")).
-Eval vm_compute in ("<<<M1105>>>" ++ check (runes_of_ascii "MetaData
-chars { char[]body, char[]leftPad// c
-`tab	here` ,
-    char Packet,f32a
-    trueish,
-rootA
-i64_ ,	} options
-{ rootA=
-    zchar[ 0
-] }")).
-Eval vm_compute in ("<<<M1680>>>" ++ check (runes_of_ascii "root packet /// triple
-rootA {	i32
-MetaDataX@calculatedFrom( ""CRC32"" ) `line1
-line2` , @lengthOf( MetaData BodyLength {
-u8
-rootA, } // c")).
-Eval vm_compute in ("<<<M3453>>>" ++ check (runes_of_ascii "options{	LittleEndian	= true	;	}
+    42
 
-    root
-packet
-	P
-	{
+    :x  3
+	:	// @lengthOf(
+    tag
+,[
+    00  , 0123456789 ]  : 
+packetx
 
-    u16
+, [
+""" ++ [28040; 24687]%N ++ runes_of_ascii """
+,  ""packet"" ]:	string_  ,
+	}  ,
+}
+    options  // @lengthOf(
 
-    a ,
-u32
-    Sum
-@calculatedFrom( ""CRC32""
-	) 
+{
+i8i8=
+
+""" ++ [233]%N ++ runes_of_ascii "t" ++ [233]%N ++ runes_of_ascii """
+
+    Foo
+
+    =false
+	// packet A { u8 x, }
+
+  ;
+
+Pad
+=' ' ;}
+")).
+Eval vm_compute in ("<<<M337>>>" ++ check (runes_of_ascii "packet
+    // " ++ [128512]%N ++ runes_of_ascii " emoji
+    Header {	@calculatedFrom( """" ) @calculatedFrom(
+""" ++ [128512]%N ++ runes_of_ascii """ )  @calculatedFrom(
+""it's"" ) tag
+// trailing space 
+//
+{int32 repeatCount
+,f32a //
+@lengthOf(
+    BodyLength ) , calculatedFrom{ i64_
+    len, trueish @lengthOf( body ) `
+` , i64 f32a `u8 x,`, //x
+match  Foo as A { 007
+: options1
+//x
+/// triple
+,  255: charz ,""" ++ [233]%N ++ runes_of_ascii "t" ++ [233]%N ++ runes_of_ascii """ :zchar
+, ""`tick`""	:
+    u8x
+    ,  1 : len },}, } ,
+    repeat leftPad { uint32 packetx	`` , } // c
+, }")).
+Eval vm_compute in ("<<<M105>>>" ++ check (runes_of_ascii "
+MetaData u8x {
+    packetx
+    len `crlf
+line`
+    ,char[
+255
+] calculatedFrom `" ++ [28040; 24687; 31867; 22411]%N ++ runes_of_ascii "` , float64  MetaDataX // `tick` ""quote"" 'q'
+`say ""hi""` ,BodyLength
+// `tick` ""quote"" 'q'
+// trailing space 
+charz
+`crlf
+line`// a // b
 ,
-
+}packet lengthOf{
+    //	t
+    @tag( 4294967296 ) uint8x @calculatedFrom(
+    ""\n"" ) `" ++ [28040; 24687; 31867; 22411]%N ++ runes_of_ascii "` ,
+    char calculatedFrom	@calculatedFrom(
+""" ++ [28040; 24687]%N ++ runes_of_ascii """) // " ++ [27880; 37322]%N ++ runes_of_ascii "
+`two words` , }
+")).
+Eval vm_compute in ("<<<M343>>>" ++ check (runes_of_ascii "
+root packet Packet { @calculatedFrom(""packet""
+)
+    char[]  Packet
+, match	crc
+as T {255 :A ,
+} ,
+/// triple
+// `tick` ""quote"" 'q'
+repeat x_y_z , x_y_z@calculatedFrom( ""`tick`"" )`a\` ,
+// c
+//x
+@calculatedFrom( // a // b
+""" ++ [28040; 24687]%N ++ runes_of_ascii """ ) @lengthOf(Foo
+    )match MetaDataX as T
+    { 0 : repeatCount , } , } MetaData string_
+{ u64 x_y_z,	}packet u // " ++ [27880; 37322]%N ++ runes_of_ascii "
+{
     }
 ")).
-Eval vm_compute in ("<<<M70>>>" ++ check (runes_of_ascii "MetaData f32a{uint8 // a // b
-repeatCount, x_y_z i8i8, f32 msg_type , charz
-lengthOf `tab	here`, char[	7
-    ]chars,float  x ,
+Eval vm_compute in ("<<<M141>>>" ++ check (runes_of_ascii "packet u  { @calculatedFrom( ""CRC32"" ) repeat zchar[ 1] x_y_z`crlf
+line` ,
+@leftPad
+    ( // `tick` ""quote"" 'q'
+)
+zchar[ // `tick` ""quote"" 'q'
+255
+]crc// c
+, } root
+    packet MetaDataX{@tag( 255 )
+rootA//x
+, }packet f32a {@lengthOf( packetx	) uint8 Z9_ @calculatedFrom(
+""CRC32"" )
+    /// triple
+    ,
+    }
+")).
+Eval vm_compute in ("<<<M224>>>" ++ check (runes_of_ascii "packet MetaDataX {	int64 x_y_z //
+@calculatedFrom( ""// no comment""
+// packet A { u8 x, }
+// `tick` ""quote"" 'q'
+)
+, }	MetaData int { u16 // packet A { u8 x, }
+roots , zchar[ 7 // " ++ [27880; 37322]%N ++ runes_of_ascii "
+]u8x ,  int16 //x
+Logon, } MetaData i64_ // a // b
+{// c
+zchar[ 1 ] // `tick` ""quote"" 'q'
+crc	, }
+
+")).
+Eval vm_compute in ("<<<M316>>>" ++ check (runes_of_ascii "packet  crc {calculatedFrom
+    {string_ u
+,
+rootA
+    calculatedFrom , } // packet A { u8 x, }
+,
+    @lengthOf( len
+    )match //x
+roots
+    /// triple
+    as x{""// no comment""
+:
+    msg_type
+    ,
+7 : calculatedFrom ,} ,} packet zchar
+{
+    }
+
+")).
+Eval vm_compute in ("<<<M397>>>" ++ check (runes_of_ascii "options
+{
+matchKey matchKey = 42/// triple
+x='0' ;
+// packet A { u8 x, }
+//
+charz
+=
+// packet A { u8 x, }
+// trailing space 
+true  ; } MetaData BodyLength
+{
+uint8
+pack,zchar[ 1]float ,  float32 x_y_z `` ,u32
+_x,i16 body  , }
+")).
+Eval vm_compute in ("<<<M509>>>" ++ check (runes_of_ascii "options
+{
+matchKey = 42/// triple
+x='0' ;
+// packet A { u8 x, }
+//
+charz
+=
+// packet A { u8 x, }
+// trailing space 
+true  ; } MetaData BodyLength
+{
+uint8
+pack,zchar[ 1]float zchar  float32 x_y_z `` ,u32
+_x,i16 body  , }
+")).
+Eval vm_compute in ("<<<M557>>>" ++ check (runes_of_ascii "options
+{
+matchKey = 42/// triple
+x='0' ;
+// packet A { u8 x, }
+//
+charz
+=
+// packet A { u8 x, }
+// trailing space 
+true  ; } MetaData BodyLength
+{
+uint8
+pack,zchar[ 1]float ,  float32 x_y_z `` ,u32
+_x,i16 body  , , }
+")).
+Eval vm_compute in ("<<<M418>>>" ++ check (runes_of_ascii "options
+{
+matchKey = 42/// triple
+x'0'= ;
+// packet A { u8 x, }
+//
+charz
+=
+// packet A { u8 x, }
+// trailing space 
+true  ; } MetaData BodyLength
+{
+uint8
+pack,zchar[ 1]float ,  float32 x_y_z `` ,u32
+_x,i16 body  , }
+")).
+Eval vm_compute in ("<<<M401>>>" ++ check (runes_of_ascii "options
+{
+matchKey  42/// triple
+x='0' ;
+// packet A { u8 x, }
+//
+charz
+=
+// packet A { u8 x, }
+// trailing space 
+true  ; } MetaData BodyLength
+{
+uint8
+pack,zchar[ 1]float ,  float32 x_y_z `` ,u32
+_x,i16 body  , }
+")).
+Eval vm_compute in ("<<<M476>>>" ++ check (runes_of_ascii "options
+{
+matchKey = 42/// triple
+x='0' ;
+// packet A { u8 x, }
+//
+charz
+=
+// packet A { u8 x, }
+// trailing space 
+true  ; } MetaData BodyLength
+{
+uint8
+,zchar[ 1]float ,  float32 x_y_z `` ,u32
+_x,i16 body  , }
+")).
+Eval vm_compute in ("<<<M221>>>" ++ check (runes_of_ascii "options{ len = // " ++ [27880; 37322]%N ++ runes_of_ascii "
+true
+    ;
+MetaDataX = zchar[ 00//
+] lengthOf =  '0'; Pad	=""packet""  ; x_y_z
+    // a // b
+    = ""a\""b""; } packet calculatedFrom{
+repeat
+matchKey // packet A { u8 x, }
+Foo
+,
+    }
+")).
+Eval vm_compute in ("<<<M1339>>>" ++ check (runes_of_ascii "// top
+packet
+    // c0
+Inner { // c2a
+  // c2b
+u8 a // c4a
+  // c4b
+, } root
+    // c7
+packet // c8a
+  // c8b
+P // c9
+{ // c10
+Inner ref_obj , u8 x
+    // c15
+,
+    // c16
+}
+    // c17
+")).
+Eval vm_compute in ("<<<M712>>>" ++ check (runes_of_ascii "// c
+packet i64_ {	char[] calculatedFrom , `} packet
+trueish  {@calculatedFrom(
+""a\\"" ) o { i32 falsey@lengthOf( uint8x ),
+} , } // `tick` ""quote"" 'q'
+options {// c
+Z9_ = ' '//
 }
 ")).
-Eval vm_compute in ("<<<M1635>>>" ++ check (runes_of_ascii "root packet /// triple
-{ rootA	i32
-MetaDataX@calculatedFrom( ""CRC32"" ) `line1
-line2` , } MetaData BodyLength {
-u8
-rootA, } // c")).
-Eval vm_compute in ("<<<M504>>>" ++ check (runes_of_ascii "MetaData
-    u128
-{char[255 ] _x
-`{ , }`
+Eval vm_compute in ("<<<M1384>>>" ++ check (runes_of_ascii "
+packet
+A { u8	a
+	,
+	} packet 
+B 
+{
+u16 b	, } root packet
+P  {
+	u8
+	K1
+
+    ,
+
+u8	K2 , match K1  as
+M1
+{1
+    :A
+, 
+} ,	match K2 
+as
+
+    M2	{
+1	:
+
+    B,
+	}
+    , 
+} ")).
+Eval vm_compute in ("<<<M1649>>>" ++ check (runes_of_ascii "  packet u128{
+u8 
+a 
 ,
-    string leftPad , u8
-    A
-, zchar[
-0123456789]Foo , char[] As`{ , }` , } 	 ")).
-Eval vm_compute in ("<<<M814>>>" ++ check (runes_of_ascii "root
-    packet  T{  string zchar ,
-zchar[  3] stringy , } packet
-    rootA {
-    u {repeatCount@lengthOf(o)`{ , }` , } , }
-")).
-Eval vm_compute in ("<<<M1660>>>" ++ check (runes_of_ascii "root packet /// triple
-rootA {	i32
-MetaDataX@calculatedFrom( : ) `line1
-line2` , } MetaData BodyLength {
+
+    } root packet  Msg  {
+
 u8
-rootA, } // c")).
-Eval vm_compute in ("<<<M3423>>>" ++ check (runes_of_ascii "
+	k ,u24{ u8
+Hi
+,	u16 Lo
+,
+},
+
+repeat
+i24 { 
+u32
+q
+    , }
+	,
+u128
+
+, u16 
+float32x
+
+    ,
+string s  ,}
+")).
+Eval vm_compute in ("<<<M1388>>>" ++ check (runes_of_ascii "packet A {
+    u8 a,
+}
+packet B {
+    u16 b,
+}
+root packet P {
+    u8 K,
+    match K as M {
+        [1, 2] : A,
+        3 : B,
+        7 : A,
+    },
+}
+")).
+Eval vm_compute in ("<<<M1355>>>" ++ check (runes_of_ascii "
+packet
+B{
+    u8  a
+
+    ,} root
+    packet
+
+P {  u8
+K ,
+
+    match  K
+    as
+Body {
+
+    1
+:
+B,}
+, 
+u16
+	L @lengthOf( 
+Body ) ,
+} ")).
+Eval vm_compute in ("<<<M1667>>>" ++ check (runes_of_ascii "packet
+	A{
+
+    match  k 
+as
+n  {
+
+[  1, 22
+,  ""c c"" , 
+4
+,  5
+
+,  ""f"" ,	7
+, 8
+
+,
+    ""i"" ,10 ,
+    11
+    ]
+
+:
+B
+    2:
+	C	}	, }")).
+Eval vm_compute in ("<<<M1993>>>" ++ check (runes_of_ascii "packet A {
+    u16 len @lengthOf(body) `a
+    
+    b`,
+    u32 crc @calculatedFrom(""CRC32"") `a
+    
+    b`,
+    string body,
+}")).
+Eval vm_compute in ("<<<M1337>>>" ++ check (runes_of_ascii "
 options
 
     { LittleEndian
@@ -1924,319 +843,181 @@ repeat char
     }
 
 ")).
-Eval vm_compute in ("<<<M1828>>>" ++ check (runes_of_ascii "packet
-    Pad // a // b
-{ i8i8 @calculatedFrom( ""a	b"") `u8 x,` ,
-i8 options{ float// " ++ [128512]%N ++ runes_of_ascii " emoji
-= f64 i64_
-=//	t
-00 }
+Eval vm_compute in ("<<<M1554>>>" ++ check (runes_of_ascii "packet Logon {
+    @tag(42)
+    // c
+    @rightPad(' ')
+    @leftPad()
+    repeat trueish {
+        string T,
+    },
+}")).
+Eval vm_compute in ("<<<M1374>>>" ++ check (runes_of_ascii "// top
+root
+    // c0
+packet // c1a
+  // c1b
+P // c2a
+  // c2b
+{ // c3a
+  // c3b
+string // c4
+s , // c6
+}
+    // c7
 ")).
-Eval vm_compute in ("<<<M1813>>>" ++ check (runes_of_ascii "packet
-    Pad // a // b
-{ i8i8 @calculatedFrom( ""a	b""[ `u8 x,` ,
-} options{ float// " ++ [128512]%N ++ runes_of_ascii " emoji
-= f64 i64_
-=//	t
-00 }
-")).
-Eval vm_compute in ("<<<M2992>>>" ++ check (runes_of_ascii "packet A {
+Eval vm_compute in ("<<<M892>>>" ++ check (runes_of_ascii "packet A {
   match k as n {
-    [""a"", ""bb"", ""c c"", ""d"", ""e"", ""f"", ""g"", ""h"", ""i"", ""j"", ""k"", ""l""] : B
+    [""a"", ""bb"", ""c c"", ""d"", ""e"", ""f"", ""g"", ""h"", ""i"", ""j"", ""k""] : B,
     2 : C
   },
 }")).
-Eval vm_compute in ("<<<M907>>>" ++ check (runes_of_ascii "options{ zchar
-/// triple
-// a // b
-=42 //
-i64_ = char[]T=
-    // trailing space 
-    char repeatCount =
-' ' ;}
-
-")).
-Eval vm_compute in ("<<<M3992>>>" ++ check (runes_of_ascii "
-
-  packet A	{ match
-	k as
-
-    n
-
-{	[
-    ""a""
-	,
-""bb""
-, 
-007 ,
-    ""d"" , ""e""]  :
-    B  2 : 
-C}
-    , 
+Eval vm_compute in ("<<<M918>>>" ++ check (runes_of_ascii "packet A {
+    u16 len @lengthOf(body) `a
+b`,
+    u32 crc @calculatedFrom(""CRC32"") `a
+b`,
+    string body,
+}")).
+Eval vm_compute in ("<<<M1926>>>" ++ check (runes_of_ascii "packet o {
+    @tag(42)
+    repeat x {
+        char[0123456789] i64_,
+        // c
+    },
 }
 
-")).
-Eval vm_compute in ("<<<M3646>>>" ++ check (runes_of_ascii "
-options
-    {
-Foo =
-
-""`tick`""
-	pack
-	= 
-  //
-	""" ++ [233]%N ++ runes_of_ascii "t" ++ [233]%N ++ runes_of_ascii """
-;
-leftPad  =
-false ;
-    int =char[] ;a1
-=
-	i16; }
-
-")).
-Eval vm_compute in ("<<<M4446>>>" ++ check (runes_of_ascii "
-packet o  {
-
-    @tag( 
-42
-    ) 
-repeat
-    x{char[ 0123456789  ] // c
-  i64_,
-}  ,	}
-options
-{ }
-")).
-Eval vm_compute in ("<<<M3348>>>" ++ check (runes_of_ascii "packet calculatedFrom { @tag( 4294967296
-// c
-) u msg_type , char[ 3 ] crc @lengthOf( len ) `u8 x,` , }")).
-Eval vm_compute in ("<<<M1093>>>" ++ check (runes_of_ascii "MetaData
-    f32a  { u8
-    roots`doc`  , zchar[ 7 ] uint8x ,
-    matchKey
-    u128 `tab	here` ,
-    }")).
-Eval vm_compute in ("<<<M3980>>>" ++ check (runes_of_ascii "packet int{ 
-}
-    // packet A { u8 x, }
-packet 
-Pad { repeat  zchar[ 7
-    ]	body`" ++ [233]%N ++ runes_of_ascii "`
-
-    ,  }
-
-")).
-Eval vm_compute in ("<<<M2961>>>" ++ check (runes_of_ascii "packet A {
-  match k as n {
-    [""a"", ""bb"", 007, ""d"", ""e"", 66, ""g"", ""h"", 9] : B
-    2 : C
-  },
-}")).
-Eval vm_compute in ("<<<M3224>>>" ++ check (runes_of_ascii "packet Logon { @tag( 42 // c
-) @rightPad ( ' ' ) @leftPad ( ) repeat trueish { string T , } , }")).
-Eval vm_compute in ("<<<M3256>>>" ++ check (runes_of_ascii "packet Logon { @tag( 42 ) @rightPad ( ' ' ) @leftPad ( ) repeat trueish { string T , } , // c
-}")).
-Eval vm_compute in ("<<<M1963>>>" ++ check (runes_of_ascii "root
-packet packet crc
-    { f32a @calculatedFrom( """ ++ [233]%N ++ runes_of_ascii "t" ++ [233]%N ++ runes_of_ascii """ )
-    `say ""hi""`, lengthOf `` ,  }")).
-Eval vm_compute in ("<<<M3961>>>" ++ check (runes_of_ascii "
-packet A
-
-{ match 
-k as
-n 
-{
-    [
-
-    1
-, ""bb"" 
-, 007 
-,  ""d"" ,5 ] 
-:B 
-2:  C	}  ,}")).
-Eval vm_compute in ("<<<M1137>>>" ++ check (runes_of_ascii "packet roots {rootA @lengthOf(
-    trueish ) `line1
-line2` , int16 Packet
-`" ++ [28040; 24687; 31867; 22411]%N ++ runes_of_ascii "` , } 	 ")).
-Eval vm_compute in ("<<<M2033>>>" ++ check (runes_of_ascii "root
-packet crc
-    { f32a @calculatedFrom(# """ ++ [233]%N ++ runes_of_ascii "t" ++ [233]%N ++ runes_of_ascii """ )
-    `say ""hi""`, lengthOf `` ,  }")).
-Eval vm_compute in ("<<<M2013>>>" ++ check (runes_of_ascii "root
-packet crc
-    { f32a @calculatedFrom( """ ++ [233]%N ++ runes_of_ascii "t" ++ [233]%N ++ runes_of_ascii """ )
-    `say ""hi""`, lengthOf , ``  }")).
-Eval vm_compute in ("<<<M1605>>>" ++ check (runes_of_ascii "root packet Foo // " ++ [128512]%N ++ runes_of_ascii " emoji
-{ } options {
-    // a // b
-    tag // `tick` ""quote"" 'q")).
-Eval vm_compute in ("<<<M2933>>>" ++ check (runes_of_ascii "packet A {
-  match k as n {
-    [1, 22, ""c c"", 4, 5, ""f"", 7] : B
-    2 : C
-  },
-}")).
-Eval vm_compute in ("<<<M3323>>>" ++ check (runes_of_ascii "packet o { @tag( 42 ) repeat x { char[ 0123456789 ] i64_ , }
-// c
-, } options { }")).
-Eval vm_compute in ("<<<M436>>>" ++ check (runes_of_ascii "
-root packet	f32a {packetx
-@calculatedFrom( ""CRC32""
-    )
-// a // b
-//x
-,  }
-")).
-Eval vm_compute in ("<<<M2015>>>" ++ check (runes_of_ascii "root
-packet crc
-    { f32a @calculatedFrom( """ ++ [233]%N ++ runes_of_ascii "t" ++ [233]%N ++ runes_of_ascii """ )
-    `say ""hi""`, lengthOf")).
-Eval vm_compute in ("<<<M1996>>>" ++ check (runes_of_ascii "root
-packet crc
-    { f32a @calculatedFrom( """ ++ [233]%N ++ runes_of_ascii "t" ++ [233]%N ++ runes_of_ascii """ )
-    , lengthOf `` ,  }")).
-Eval vm_compute in ("<<<M2907>>>" ++ check (runes_of_ascii "packet A {
-  match k as n {
-    [1, 22, ""c c"", 4, 5] : B
-    2 : C
-  },
-}")).
-Eval vm_compute in ("<<<M1272>>>" ++ check (runes_of_ascii "  options{
-calculatedFrom //x
-= true i8i8 = ""a	b"";  f32a
-= false
-; }
-")).
-Eval vm_compute in ("<<<M4002>>>" ++ check (runes_of_ascii "packet chars // packet A { u8 x, }
-    	{
-}	packet 
-u
-{
-	} 
-	//	t
- 
-")).
-Eval vm_compute in ("<<<M2203>>>" ++ check (runes_of_ascii "root
-    // `tick` ""quote"" 'q'
-    packet As { trueish Packet , "" }
-")).
-Eval vm_compute in ("<<<M1377>>>" ++ check (runes_of_ascii "options
-{ trueish// @lengthOf(
-= // @lengthOf(
-zchar[65535 ]; }
-")).
-Eval vm_compute in ("<<<M2865>>>" ++ check (runes_of_ascii "packet A {
-  match k as n {
-    [""a"", ""bb""] : B,
-    2 : C
-  },
-}")).
-Eval vm_compute in ("<<<M4419>>>" ++ check (runes_of_ascii "
-// " ++ [128512]%N ++ runes_of_ascii " emoji
-  MetaData
-u
-	{  int Foo,
-f32a
-stringy
-`doc`,
-
-}
-")).
-Eval vm_compute in ("<<<M1923>>>" ++ check (runes_of_ascii "
-packet	As { @calculatedFrom(//x
-""{,}""	match lengthOf , } 	 ")).
-Eval vm_compute in ("<<<M1901>>>" ++ check (runes_of_ascii "
-packet	As As { @calculatedFrom(//x
-""{,}""	)lengthOf , } 	 ")).
-Eval vm_compute in ("<<<M4217>>>" ++ check (runes_of_ascii "root packet A {
-    u8 x `a
-            b
-          c`,
-}")).
-Eval vm_compute in ("<<<M1927>>>" ++ check (runes_of_ascii "
-packet	As { @calculatedFrom(//x
-""{,}""	), lengthOf } 	 ")).
-Eval vm_compute in ("<<<M2808>>>" ++ check (runes_of_ascii "match , ) u32 @lengthOf( [ int16 00 u8 ) = u16 { u16")).
-Eval vm_compute in ("<<<M2417>>>" ++ check (runes_of_ascii "MetaData A
-{
-i64
-chars	' ' } // `tick` ""quote"" 'q'")).
-Eval vm_compute in ("<<<M644>>>" ++ check (runes_of_ascii "// trailing space 
-packet chars { string len , }")).
-Eval vm_compute in ("<<<M2259>>>" ++ check (runes_of_ascii "MetaData Packet { }packet	asx  { @lengthOf( asx")).
-Eval vm_compute in ("<<<M4310>>>" ++ check (runes_of_ascii "
-packet  A{
-
-    }  // a
-  // b
-      // c
-")).
-Eval vm_compute in ("<<<M2170>>>" ++ check (runes_of_ascii "root
-    // `tick` ""quote"" 'q'
-    packet As")).
-Eval vm_compute in ("<<<M847>>>" ++ check (runes_of_ascii "// a // b
-options{ Logon = 255 // " ++ [27880; 37322]%N ++ runes_of_ascii "
-;}
-
-")).
-Eval vm_compute in ("<<<M3207>>>" ++ check (runes_of_ascii "MetaData zchar { zchar[ 3 ] Pad , }
-// c
-")).
-Eval vm_compute in ("<<<M3191>>>" ++ check (runes_of_ascii "MetaData
-// c
-zchar { zchar[ 3 ] Pad , }")).
-Eval vm_compute in ("<<<M2146>>>" ++ check (runes_of_ascii "MetaData x
-{// " ++ [128512]%N ++ runes_of_ascii " emoji
-i1%6 stringy , }")).
-Eval vm_compute in ("<<<M3152>>>" ++ check (runes_of_ascii "packet A {    u8 x, // c    u8 y,}")).
-Eval vm_compute in ("<<<M2132>>>" ++ check (runes_of_ascii "MetaData x
-{// " ++ [128512]%N ++ runes_of_ascii " emoji
-i16 stringy ,")).
-Eval vm_compute in ("<<<M2579>>>" ++ check (runes_of_ascii "packet A { char[3] @lengthOf(y), }")).
-Eval vm_compute in ("<<<M330>>>" ++ check (runes_of_ascii "packet Logon
-    { }packet _x{}
-")).
-Eval vm_compute in ("<<<M3682>>>" ++ check (runes_of_ascii "options {
-    matchKey = '0';
-}")).
-Eval vm_compute in ("<<<M3108>>>" ++ check (runes_of_ascii "packet A {
- u8 x `d" ++ [8239]%N ++ runes_of_ascii "`, // c" ++ [8239]%N ++ runes_of_ascii "
-}")).
-Eval vm_compute in ("<<<M1092>>>" ++ check (runes_of_ascii "MetaData BodyLength //	t
-{ }")).
-Eval vm_compute in ("<<<M2646>>>" ++ check (runes_of_ascii "MetaData M { repeat u8 x, }")).
-Eval vm_compute in ("<<<M2592>>>" ++ check (runes_of_ascii "packet A { x @leftPad(), }")).
-Eval vm_compute in ("<<<M3270>>>" ++ check (runes_of_ascii "
-// c
-options { u8x = 3 }")).
-Eval vm_compute in ("<<<M3272>>>" ++ check (runes_of_ascii "options
-// c
-{ u8x = 3 }")).
-Eval vm_compute in ("<<<M2590>>>" ++ check (runes_of_ascii "packet A { x @tag(1), }")).
-Eval vm_compute in ("<<<M2766>>>" ++ check ([28; 31; 65533; 22; 1; 65533]%N ++ runes_of_ascii "W" ++ [65533]%N ++ runes_of_ascii "??=" ++ [65533]%N ++ runes_of_ascii "Bq" ++ [65533]%N ++ runes_of_ascii "[" ++ [65533; 65533; 15]%N ++ runes_of_ascii "\)$")).
-Eval vm_compute in ("<<<M218>>>" ++ check (runes_of_ascii "
-packet len
-    { }")).
-Eval vm_compute in ("<<<M2637>>>" ++ check (runes_of_ascii "root MetaData M { }")).
-Eval vm_compute in ("<<<M2712>>>" ++ check (runes_of_ascii "dA]ucOM4KH8ZrzZ}/;")).
-Eval vm_compute in ("<<<M3121>>>" ++ check (runes_of_ascii "packet A {
-}
-// c" ++ [12]%N)).
-Eval vm_compute in ("<<<M2855>>>" ++ check (runes_of_ascii "65535 65535 false")).
-Eval vm_compute in ("<<<M3616>>>" ++ check (runes_of_ascii "//	t
 options {
 }")).
-Eval vm_compute in ("<<<M2798>>>" ++ check (runes_of_ascii "/" ++ [65533]%N ++ runes_of_ascii "FS" ++ [65533]%N ++ runes_of_ascii "A" ++ [65533; 65533; 65533]%N ++ runes_of_ascii "q" ++ [65533; 65533; 65533]%N ++ runes_of_ascii "%")).
-Eval vm_compute in ("<<<M2485>>>" ++ check (runes_of_ascii "@lengthOf (")).
-Eval vm_compute in ("<<<M1877>>>" ++ check (runes_of_ascii "packet
- ")).
-Eval vm_compute in ("<<<M1228>>>" ++ check (runes_of_ascii " // " ++ [27880; 37322]%N)).
-Eval vm_compute in ("<<<M2448>>>" ++ check (runes_of_ascii "true1")).
-Eval vm_compute in ("<<<M3140>>>" ++ check (runes_of_ascii "// c" ++ [6158]%N)).
-Eval vm_compute in ("<<<M1318>>>" ++ check (runes_of_ascii "
+Eval vm_compute in ("<<<M1279>>>" ++ check (runes_of_ascii "packet calculatedFrom { @tag( 4294967296 ) u msg_type , char[ 3 ] crc @lengthOf( // c
+len ) `u8 x,` , }")).
+Eval vm_compute in ("<<<M626>>>" ++ check (runes_of_ascii "MetaData
+    // trailing space 
+    matchKey
+{ u64 chars // a // b
+,char[] lengthOf 
+    , //	t
+}")).
+Eval vm_compute in ("<<<M6>>>" ++ check (runes_of_ascii "MetaData metadata{
+leftPad i64_ ,
+    // " ++ [128512]%N ++ runes_of_ascii " emoji
+    u8
+    stringy `
+` , char[] trueish , }
+")).
+Eval vm_compute in ("<<<M1157>>>" ++ check (runes_of_ascii "packet Logon { @tag( 42 ) @rightPad ( ' ' ) @leftPad ( ) repeat
+// c
+trueish { string T , } , }")).
+Eval vm_compute in ("<<<M840>>>" ++ check (runes_of_ascii "packet A {
+  match k as n {
+    [""a"", ""bb"", ""c c"", ""d"", ""e"", ""f"", ""g""] : B,
+    2 : C
+  },
+}")).
+Eval vm_compute in ("<<<M1938>>>" ++ check (runes_of_ascii "packet A {
+    match k as n {
+        [1, ""bb"", 007, ""d"", 5] : B,
+        2 : C,
+    },
+}")).
+Eval vm_compute in ("<<<M671>>>" ++ check (runes_of_ascii "// c
+packet i64_ {	char[] calculatedFrom , } packet
+trueish  {@calculatedFrom(
+""a\\""")).
+Eval vm_compute in ("<<<M1208>>>" ++ check (runes_of_ascii "packet // c
+o { @tag( 42 ) repeat x { char[ 0123456789 ] i64_ , } , } options { }")).
+Eval vm_compute in ("<<<M1240>>>" ++ check (runes_of_ascii "packet o { @tag( 42 ) repeat x { char[ 0123456789 ] i64_ , } , } // c
+options { }")).
+Eval vm_compute in ("<<<M1823>>>" ++ check (runes_of_ascii "MetaData M {
+    u8 x `a
+        
+        b`,
+    T t `a
+        
+        b`,
+}")).
+Eval vm_compute in ("<<<M817>>>" ++ check (runes_of_ascii "packet A {
+  match k as n {
+    [1, ""bb"", 007, ""d"", 5] : B
+    2 : C
+  },
+}")).
+Eval vm_compute in ("<<<M372>>>" ++ check (runes_of_ascii "
+packet Z9_ { } // a // b
+root
+    packet roots{
+    /// triple
+    }")).
+Eval vm_compute in ("<<<M1322>>>" ++ check (runes_of_ascii "MetaData _x { zchar[ 4294967296 ] lengthOf
+// c
+`// not a comment` , }")).
+Eval vm_compute in ("<<<M1379>>>" ++ check (runes_of_ascii "root packet P {
+    u8 s_u8,
+    repeat u8 r_u8,
+    u16 b_len,
+}
+")).
+Eval vm_compute in ("<<<M1742>>>" ++ check (runes_of_ascii "packet Z9_ {
+}// a // b
 
+root packet roots {
+    /// triple
+}")).
+Eval vm_compute in ("<<<M2004>>>" ++ check (runes_of_ascii "
+
+  MetaData	/// triple
+pack {
+i64 Header
+	, 
+u64	As,  }")).
+Eval vm_compute in ("<<<M926>>>" ++ check (runes_of_ascii "MetaData M {
+    u8 x `a
+b`,
+    T t `a
+b`,
+}")).
+Eval vm_compute in ("<<<M1614>>>" ++ check (runes_of_ascii "  root
+
+    packet	P 
+{
+
+string
+s
+, }
 
 ")).
-Eval vm_compute in ("<<<M2803>>>" ++ check (runes_of_ascii "4KK")).
-Eval vm_compute in ("<<<M2503>>>" ++ check (runes_of_ascii """")).
+Eval vm_compute in ("<<<M1902>>>" ++ check (runes_of_ascii "root packet A {
+    u8 x `a
+    b`,
+}")).
+Eval vm_compute in ("<<<M305>>>" ++ check (runes_of_ascii "
+packet asx{ u64
+MetaDataX
+, }
+")).
+Eval vm_compute in ("<<<M753>>>" ++ check (runes_of_ascii "NZ:ajvAoE|G&X[2Iou:C^VHSnZ'z*o")).
+Eval vm_compute in ("<<<M2014>>>" ++ check (runes_of_ascii "
+
+  packet
+A {  } 	 // c" ++ [12]%N ++ runes_of_ascii "
+ 
+")).
+Eval vm_compute in ("<<<M1188>>>" ++ check (runes_of_ascii "options {
+// c
+u8x = 3 }")).
+Eval vm_compute in ("<<<M1642>>>" ++ check (runes_of_ascii "
+// c" ++ [12288]%N ++ runes_of_ascii "
+packet	A
+
+{}
+
+")).
+Eval vm_compute in ("<<<M1000>>>" ++ check (runes_of_ascii "packet A {
+}
+// c" ++ [8192]%N)).
+Eval vm_compute in ("<<<M973>>>" ++ check (runes_of_ascii "packet A {
+}// c ")).
+Eval vm_compute in ("<<<M303>>>" ++ check (runes_of_ascii "options	{
+}
+")).
+Eval vm_compute in ("<<<M1004>>>" ++ check (runes_of_ascii "// c" ++ [8202]%N)).
